@@ -6,7 +6,7 @@
    theorems of Proofs.v / Obl.v hold for composed histories. *)
 From Coq Require Import List Arith NArith Bool Lia Sorted Permutation.
 From V.C14 Require Model Proofs.
-From V.C17 Require Model Proofs.
+From V.C17 Require Model Proofs Timed TimedProofs Ingress IngressProofs.
 From V.C16 Require Import Model Proofs Obl Bound Compose.
 Import ListNotations.
 Open Scope N_scope.
@@ -14,7 +14,11 @@ Open Scope N_scope.
 Module R := V.C14.Model.
 Module RP := V.C14.Proofs.
 Module S := V.C17.Model.
+Module T := V.C17.Timed.
+Module K := V.C17.Ingress.
 Module SP := V.C17.Proofs.
+Module KP := V.C17.IngressProofs.
+Module TP := V.C17.TimedProofs.
 
 (* ------------------------------------------------------------------ refinement *)
 
@@ -48,10 +52,17 @@ Proof.
   destruct (step (wc_g wc) (w_st w) e) as [[st' o] ok]. reflexivity.
 Qed.
 
-Lemma cstep_store : forall wc w u, w_store (fst (fst (cstep wc w u))) = snd (elab wc w u).
+Lemma cstep_ks : forall wc w u, w_ks (fst (fst (cstep wc w u))) = snd (elab wc w u).
 Proof.
   intros. unfold cstep. destruct (elab wc w u) as [[e t'] s'].
   destruct (step (wc_g wc) (w_st w) e) as [[st' o] ok]. reflexivity.
+Qed.
+
+Lemma elab_ks : forall wc w u, snd (elab wc w u) = fst (kside wc w u).
+Proof.
+  intros wc w u. destruct u; cbn [elab]; try reflexivity.
+  - destruct (rt_filter wc (w_rt w) given). reflexivity.
+  - destruct (fire1 wc (age (w_ks w) wait) rk (lrank wc target)) as [[k [qc |]] |]; reflexivity.
 Qed.
 
 Lemma compose_refines : forall wc us w,
@@ -66,29 +77,24 @@ Qed.
 
 (* the ids the user starts; a refresh timer that fires starts an operation (with an id from the shared
    counter) only when a refresh is due: `started_by` of the elaborated event decides *)
-Definition ustarted_by (u : uev) : option N :=
-  match u with
-  | UCmd q _ _ | UPutToPeers q _ _ _ | UFire q _ _ => Some q
-  | UEv e => started_by e
-  | _ => None
-  end.
 Definition ustarted (q : N) (us : list uev) : nat :=
   length (filter (fun u => opt_is (ustarted_by u) q) us).
 
 Lemma elab_started : forall wc w u,
   started_by (fst (fst (elab wc w u))) = ustarted_by u \/
-  (started_by (fst (fst (elab wc w u))) = None /\ exists q rk t, u = UFire q rk t /\ fire_due w rk = None).
+  (started_by (fst (fst (elab wc w u))) = None /\ exists q rk wt t, u = UFire q rk wt t).
 Proof.
-  intros wc w u. destruct u as [q c target | q qr rk given | rk | p a | rk | q rk target | id rq | e]; cbn [elab ustarted_by].
-  - left. destruct c; cbn [fst started_by]; try reflexivity.
-    destruct (V.C17.Model.get (w_store w) rk 0) as [st' r]. reflexivity.
+  intros wc w u. destruct u as [q c target | q qr rk len pub exp upd given | rk len pub exp | p a | rk target | q rk wait target | d | id rq | e]; cbn [elab ustarted_by].
+  - left. reflexivity.
   - left. destruct (rt_filter wc (w_rt w) given) as [t' ps]. reflexivity.
   - left. reflexivity.
   - left. reflexivity.
   - left. reflexivity.
-  - destruct (fire_due w rk) eqn:E; [left; reflexivity |]. right. split; [reflexivity |]. eauto.
-  - left. destruct (side_k wc w (EFut id (RRead (msg_of_req rq))) (req_key rq)) as [t' s']. reflexivity.
-  - left. destruct (side wc w e) as [t' s']. reflexivity.
+  - destruct (fire1 wc (age (w_ks w) wait) rk (lrank wc target)) as [[k [qc |]] |]; [left; reflexivity | |];
+      (right; split; [reflexivity | eauto]).
+  - left. reflexivity.
+  - left. reflexivity.
+  - left. reflexivity.
 Qed.
 
 Fixpoint ufresh (seen : list N) (us : list uev) : Prop :=
@@ -114,7 +120,7 @@ Lemma elabs_fresh : forall wc us w seen, ufresh seen us -> fresh_ids seen (elabs
 Proof.
   intros wc us. induction us as [| u t IH]; intros w seen H; [exact I |].
   cbn [elabs fresh_ids ufresh] in *.
-  destruct (elab_started wc w u) as [E | (E & q & rk & tg & Eu & _)]; rewrite E.
+  destruct (elab_started wc w u) as [E | (E & q & rk & wt & tg & Eu)]; rewrite E.
   - destruct (ustarted_by u).
     + destruct H as [H1 H2]. split; [exact H1 | apply IH; exact H2].
     + apply IH. exact H.
@@ -273,41 +279,32 @@ Proof.
   eapply rt_op_inv; [exact Hk | reflexivity | exact HI].
 Qed.
 
-Lemma side_k_inv : forall wc w e ik, keys_ok wc -> TInv wc (w_rt w) -> TInv wc (fst (side_k wc w e ik)).
+Lemma side_inv : forall wc w e, keys_ok wc -> TInv wc (w_rt w) -> TInv wc (side wc w e).
 Proof.
-  intros wc w e ik Hk HI. unfold side_k.
+  intros wc w e Hk HI. unfold side.
   set (t0 := match disconnects (w_st w) e with Some p => rt_disconnect wc (w_rt w) p | None => w_rt w end).
   assert (H0 : TInv wc t0).
   { subst t0. destruct (disconnects (w_st w) e); [apply rt_disconnect_inv; assumption | exact HI]. }
   clearbody t0.
-  destruct e; cbn [fst]; try exact H0.
-  - destruct (aget p (conn (w_st w))); cbn [fst]; [exact H0 |].
+  destruct e; try exact H0.
+  - destruct (aget p (conn (w_st w))); [exact H0 |].
     eapply rt_op_inv; [exact Hk | reflexivity | exact H0].
   - eapply rt_op_inv; [exact Hk | reflexivity | exact H0].
-  - destruct r as [| | | m |]; cbn [fst]; try exact H0.
+  - destruct r as [| | | m |]; try exact H0.
     destruct (find_fut id (futs (w_st w))) as [f |]; [| exact H0].
     destruct (res_ok (f_kind f) (RRead m)); [| exact H0].
-    destruct (f_q f).
-    + cbn [fst]. destruct (msg_peers (trunc_msg (wc_g wc) m)); [| exact H0].
-      destruct (wc_auto wc); [apply rt_learn_inv; assumption | exact H0].
-    + destruct (trunc_msg (wc_g wc) m); exact H0.
+    destruct (f_q f); [| exact H0].
+    destruct (msg_peers (trunc_msg (wc_g wc) m)); [| exact H0].
+    destruct (wc_auto wc); [apply rt_learn_inv; assumption | exact H0].
 Qed.
-
-Lemma side_inv : forall wc w e, keys_ok wc -> TInv wc (w_rt w) -> TInv wc (fst (side wc w e)).
-Proof. intros. apply side_k_inv; assumption. Qed.
 
 Lemma elab_inv : forall wc w u, keys_ok wc -> TInv wc (w_rt w) -> TInv wc (snd (fst (elab wc w u))).
 Proof.
-  intros wc w u Hk HI. destruct u as [q c target | q qr rk given | rk | p a | rk | q rk target | id rq | e]; cbn [elab].
-  - destruct c; cbn [fst snd]; try exact HI. destruct (V.C17.Model.get (w_store w) rk 0). exact HI.
+  intros wc w u Hk HI. destruct u as [q c target | q qr rk len pub exp upd given | rk len pub exp | p a | rk target | q rk wait target | d | id rq | e]; cbn [elab]; try exact HI.
   - pose proof (rt_filter_inv wc given (w_rt w) Hk HI) as F. destruct (rt_filter wc (w_rt w) given). exact F.
-  - exact HI.
   - cbn [fst snd]. eapply rt_op_inv; [exact Hk | reflexivity | exact HI].
-  - exact HI.
-  - destruct (fire_due w rk); exact HI.
-  - pose proof (side_k_inv wc w (EFut id (RRead (msg_of_req rq))) (req_key rq) Hk HI) as F.
-    destruct (side_k wc w (EFut id (RRead (msg_of_req rq))) (req_key rq)). exact F.
-  - pose proof (side_inv wc w e Hk HI) as F. destruct (side wc w e). exact F.
+  - destruct (fire1 wc (age (w_ks w) wait) rk (lrank wc target)) as [[k [qc |]] |]; exact HI.
+  - apply side_inv; assumption.
 Qed.
 
 Lemma cstep_inv : forall wc w u, keys_ok wc -> TInv wc (w_rt w) -> TInv wc (w_rt (fst (fst (cstep wc w u)))).
@@ -440,25 +437,24 @@ Proof.
 Qed.
 
 (* RoutingTableUpdateMode::Manual: an event of the loop never brings a new peer into the table *)
-Lemma side_keys_manual : forall wc w e ik k,
-  wc_auto wc = false -> k <> [] -> has_node_key (fst (side_k wc w e ik)) k -> has_node_key (w_rt w) k.
+Lemma side_keys_manual : forall wc w e k,
+  wc_auto wc = false -> k <> [] -> has_node_key (side wc w e) k -> has_node_key (w_rt w) k.
 Proof.
-  intros wc w e ik k Hm Hk. unfold side_k.
+  intros wc w e k Hm Hk. unfold side.
   set (t0 := match disconnects (w_st w) e with Some p => rt_disconnect wc (w_rt w) p | None => w_rt w end).
   assert (H0 : has_node_key t0 k -> has_node_key (w_rt w) k).
   { subst t0. destruct (disconnects (w_st w) e); [| tauto]. unfold rt_disconnect.
     apply rt_op_keys_noadd; [reflexivity | exact Hk]. }
   clearbody t0.
-  destruct e; cbn [fst]; try exact H0.
-  - destruct (aget p (conn (w_st w))); cbn [fst]; [exact H0 |].
+  destruct e; try exact H0.
+  - destruct (aget p (conn (w_st w))); [exact H0 |].
     intro H. apply H0. eapply rt_op_keys_noadd; [| exact Hk | exact H]. reflexivity.
   - intro H. apply H0. eapply rt_op_keys_noadd; [| exact Hk | exact H]. reflexivity.
-  - destruct r as [| | | m |]; cbn [fst]; try exact H0.
+  - destruct r as [| | | m |]; try exact H0.
     destruct (find_fut id (futs (w_st w))) as [f |]; [| exact H0].
     destruct (res_ok (f_kind f) (RRead m)); [| exact H0].
-    destruct (f_q f).
-    + cbn [fst]. rewrite Hm. destruct (msg_peers (trunc_msg (wc_g wc) m)); exact H0.
-    + destruct (trunc_msg (wc_g wc) m); exact H0.
+    destruct (f_q f); [| exact H0].
+    rewrite Hm. destruct (msg_peers (trunc_msg (wc_g wc) m)); exact H0.
 Qed.
 
 Lemma cstep_keys_manual : forall wc w u k,
@@ -466,20 +462,14 @@ Lemma cstep_keys_manual : forall wc w u k,
   has_node_key (w_rt w) k \/ exists p, u = UAddKnownPeer p true /\ k = pkey wc p.
 Proof.
   intros wc w u k Hm Hk. rewrite cstep_rt.
-  destruct u as [q c target | q qr rk given | rk | p a | rk | q rk target | id rq | e]; cbn [elab].
-  - left. destruct c; cbn [fst snd] in *; try assumption. destruct (V.C17.Model.get (w_store w) rk 0). assumption.
+  destruct u as [q c target | q qr rk len pub exp upd given | rk len pub exp | p a | rk target | q rk wait target | d | id rq | e]; cbn [elab]; try (left; assumption).
   - intro H. left. pose proof (rt_filter_keys wc given (w_rt w) k Hk) as F.
     destruct (rt_filter wc (w_rt w) given). apply F. exact H.
-  - left. assumption.
   - cbn [fst snd]. intros (n & Hin & En). subst k.
     destruct (rt_op_keys wc (w_rt w) _ n Hin Hk) as [H | [Ha Ek]]; [left; exact H |].
     right. exists p. destruct a; [split; [reflexivity | exact Ek] | discriminate Ha].
-  - left. assumption.
-  - left. destruct (fire_due w rk); assumption.
-  - intro H. left. pose proof (side_keys_manual wc w (EFut id (RRead (msg_of_req rq))) (req_key rq) k Hm Hk) as F.
-    destruct (side_k wc w (EFut id (RRead (msg_of_req rq))) (req_key rq)). apply F. exact H.
-  - intro H. left. pose proof (side_keys_manual wc w e INBOUND_KEY k Hm Hk) as F. unfold side in H.
-    destruct (side_k wc w e INBOUND_KEY). apply F. exact H.
+  - left. destruct (fire1 wc (age (w_ks w) wait) rk (lrank wc target)) as [[k0 [qc |]] |]; assumption.
+  - intro H. left. apply (side_keys_manual wc w e k Hm Hk). exact H.
 Qed.
 
 Lemma crun_keys_manual : forall wc us w k,
@@ -509,51 +499,13 @@ Proof.
   - exact H.
 Qed.
 
-(* IncomingRecordValidationMode::Manual: no event of the loop writes the store; only the user's
-   store_record / put_record do *)
-Lemma side_k_store_manual : forall wc w e ik, wc_vauto wc = false -> snd (side_k wc w e ik) = w_store w.
-Proof.
-  intros wc w e ik Hm. unfold side_k. destruct e; cbn [snd]; try reflexivity.
-  - destruct (aget p (conn (w_st w))); reflexivity.
-  - destruct r as [| | | m |]; try reflexivity.
-    destruct (find_fut id (futs (w_st w))) as [f |]; [| reflexivity].
-    destruct (res_ok (f_kind f) (RRead m)); [| reflexivity].
-    destruct (f_q f); [reflexivity |].
-    destruct (trunc_msg (wc_g wc) m); try reflexivity. rewrite Hm. reflexivity.
-Qed.
-
-Lemma manual_validation : forall wc w u,
-  wc_vauto wc = false ->
-  (exists e, u = UEv e) \/ (exists id rk, u = UInReq id (IPutValue rk)) ->
-  w_store (fst (fst (cstep wc w u))) = w_store w.
-Proof.
-  intros wc w u Hm [[e ->] | (id & rk & ->)]; rewrite cstep_store; cbn [elab].
-  - pose proof (side_k_store_manual wc w e INBOUND_KEY Hm) as Hs. unfold side.
-    destruct (side_k wc w e INBOUND_KEY) as [t' s']. exact Hs.
-  - pose proof (side_k_store_manual wc w (EFut id (RRead (msg_of_req (IPutValue rk)))) (req_key (IPutValue rk)) Hm) as Hs.
-    destruct (side_k wc w (EFut id (RRead (msg_of_req (IPutValue rk)))) (req_key (IPutValue rk))) as [t' s']. exact Hs.
-Qed.
-
-(* in the Automatic mode an inbound PUT_VALUE is in the store when its read future has completed *)
-Lemma auto_validation : forall wc w id rk,
-  wc_vauto wc = true -> inbound_read (w_st w) id = true ->
-  w_store (fst (fst (cstep wc w (UInReq id (IPutValue rk))))) =
-  S.put (wc_scfg wc) (w_store w) (local_record wc rk).
-Proof.
-  intros wc w id rk Hm Hf. rewrite cstep_store. cbn [elab msg_of_req req_key]. unfold side_k.
-  unfold inbound_read in Hf. destruct (find_fut id (futs (w_st w))) as [f |]; [| discriminate].
-  destruct (f_kind f) eqn:Ek; try discriminate. destruct (f_q f) eqn:Eq; [discriminate |].
-  cbn [res_ok trunc_msg]. rewrite Hm. reflexivity.
-Qed.
-
 (* ------------------------------------------------------------------ the seeds of a lookup *)
 
 Lemma elab_cmd : forall wc w q c target,
   exists cmd, fst (fst (elab wc w (UCmd q c target))) =
               ECmd q cmd (dists_of wc target) (seeds_of wc (w_rt w) target).
 Proof.
-  intros wc w q c target. cbn [elab]. destruct c; cbn [fst]; eauto.
-  destruct (V.C17.Model.get (w_store w) rk 0). cbn [fst]. eauto.
+  intros wc w q c target. cbn [elab fst]. eauto.
 Qed.
 
 Lemma firstn_In : forall A n (l : list A) x, In x (firstn n l) -> In x l.
@@ -643,8 +595,8 @@ Proof.
   rewrite (F y Hk eq_refl). intro H. apply Hni. apply (N2 p Hk H).
 Qed.
 
-Lemma elab_put_to_peers : forall wc w q qr rk given,
-  exists ps, fst (fst (elab wc w (UPutToPeers q qr rk given))) = EPutToPeers q qr ps /\
+Lemma elab_put_to_peers : forall wc w q qr rk len pub exp upd given,
+  exists ps, fst (fst (elab wc w (UPutToPeers q qr rk len pub exp upd given))) = EPutToPeers q qr ps /\
              ps = snd (rt_filter wc (w_rt w) given).
 Proof.
   intros. cbn [elab]. destruct (rt_filter wc (w_rt w) given) as [t' ps]. cbn [fst snd]. eauto.
@@ -673,13 +625,13 @@ Proof.
   repeat split; assumption.
 Qed.
 
-Lemma put_to_peers_named : forall wc w q qr rk given,
+Lemma put_to_peers_named : forall wc w q qr rk len pub exp upd given,
   keys_ok wc ->
-  exists ps, fst (fst (elab wc w (UPutToPeers q qr rk given))) = EPutToPeers q qr ps /\
+  exists ps, fst (fst (elab wc w (UPutToPeers q qr rk len pub exp upd given))) = EPutToPeers q qr ps /\
              (forall x, In x ps -> In x given /\ x <> g_local (wc_g wc)) /\
              (NoDup given -> NoDup ps).
 Proof.
-  intros wc w q qr rk given Hk. destruct (elab_put_to_peers wc w q qr rk given) as (ps & E & Eps).
+  intros wc w q qr rk len pub exp upd given Hk. destruct (elab_put_to_peers wc w q qr rk len pub exp upd given) as (ps & E & Eps).
   exists ps. split; [exact E |]. subst ps. split.
   - intros x Hx. apply (rt_filter_named wc given (w_rt w) x Hk Hx).
   - apply rt_filter_nodup. exact Hk.
@@ -689,7 +641,7 @@ Qed.
 
 Definition ucmd_ok (g : gcfg) (u : uev) : Prop :=
   match u with
-  | UPutToPeers _ _ _ given => NoDup given
+  | UPutToPeers _ _ _ _ _ _ _ given => NoDup given
   | UEv e => cmd_ok g e
   | _ => True
   end.
@@ -697,17 +649,19 @@ Definition ucmd_ok (g : gcfg) (u : uev) : Prop :=
 Lemma elab_cmd_ok : forall wc w u,
   keys_ok wc -> TInv wc (w_rt w) -> ucmd_ok (wc_g wc) u -> cmd_ok (wc_g wc) (fst (fst (elab wc w u))).
 Proof.
-  intros wc w u Hk HI Hu. destruct u as [q c target | q qr rk given | rk | p a | rk | q rk target | id rq | e].
+  intros wc w u Hk HI Hu. destruct u as [q c target | q qr rk len pub exp upd given | rk len pub exp | p a | rk target | q rk wait target | d | id rq | e].
   - destruct (elab_cmd wc w q c target) as [cmd E]. rewrite E. cbn [cmd_ok].
     apply seeds_not_local; assumption.
-  - destruct (elab_put_to_peers wc w q qr rk given) as (ps & E & Eps). rewrite E. cbn [cmd_ok]. subst ps.
+  - destruct (elab_put_to_peers wc w q qr rk len pub exp upd given) as (ps & E & Eps). rewrite E. cbn [cmd_ok]. subst ps.
     apply rt_filter_nodup; assumption.
   - exact I.
   - exact I.
   - exact I.
-  - cbn [elab]. destruct (fire_due w rk); cbn [fst cmd_ok]; [apply seeds_not_local; assumption | exact I].
-  - cbn [elab]. destruct (side_k wc w (EFut id (RRead (msg_of_req rq))) (req_key rq)). exact I.
-  - cbn [elab]. destruct (side wc w e). exact Hu.
+  - cbn [elab]. destruct (fire1 wc (age (w_ks w) wait) rk (lrank wc target)) as [[k0 [qc |]] |];
+      cbn [fst cmd_ok]; [apply seeds_not_local; assumption | exact I | exact I].
+  - exact I.
+  - exact I.
+  - exact Hu.
 Qed.
 
 Lemma elabs_cmds_ok : forall wc us w,
@@ -721,208 +675,355 @@ Qed.
 
 (* ------------------------------------------------------------------ the store *)
 
-(* every record of the store was put by this node's handlers with the configured ttl *)
-Definition SI (wc : wcfg) (s : S.store) : Prop :=
-  Forall (fun r => S.r_exp r = Some (wc_ttl wc)) (S.recs s).
+(* The store of the composed world is the C17 model, driven by C17's model of the loop (`kstep`) for every
+   event that has a counterpart there; the two additions of this file (explicit time passing, one refresh
+   future at a time) apply C17's operations.  Hence the store maps of every reachable world are reached by
+   Model.v operations, and C17's store invariant holds in the composition. *)
+Lemma w_store_ks : forall w, w_store w = KP.kstore (w_ks w).
+Proof. reflexivity. Qed.
 
-Definition stored (s : S.store) (rk : N) : Prop := S.find_rec rk (S.recs s) <> None.
+Lemma cstep_store : forall wc w u, w_store (fst (fst (cstep wc w u))) = KP.kstore (fst (kside wc w u)).
+Proof. intros. rewrite w_store_ks, cstep_ks, elab_ks. reflexivity. Qed.
 
-Lemma put_SI : forall wc s rk, SI wc s -> SI wc (S.put (wc_scfg wc) s (local_record wc rk)).
+Lemma fire1_reach : forall wc ks rk dist ks' o,
+  fire1 wc ks rk dist = Some (ks', o) ->
+  KP.Reach (wc_scfg wc) (KP.kstore ks) (KP.kstore ks') /\ K.ks_now ks' = K.ks_now ks /\ K.ks_dead ks' = false.
 Proof.
-  intros wc s rk H. unfold S.put.
-  destruct (S.max_size (wc_scfg wc) <=? S.r_len (local_record wc rk)); [exact H |].
-  assert (Hr : SI wc (S.mkStore (S.replace_rec (local_record wc rk) (S.recs s)) (S.pkeys s) (S.locals s))).
-  { unfold SI. cbn [S.recs]. apply SP.replace_rec_forall; [reflexivity | exact H]. }
-  destruct (S.find_rec (S.r_key (local_record wc rk)) (S.recs s)) as [old |].
-  - destruct (S.r_exp old); cbn [S.r_exp local_record]; [| exact Hr].
-    destruct (wc_ttl wc <? n); [exact H | exact Hr].
-  - destruct (S.max_records (wc_scfg wc) <=? N.of_nat (length (S.recs s))); [exact H |].
-    unfold SI. cbn [S.recs]. apply Forall_app. split; [exact H | constructor; [reflexivity | constructor]].
+  intros wc ks rk dist ks' o. unfold fire1. destruct (K.ks_dead ks) eqn:Ed; [discriminate |].
+  destruct (take_due (K.ks_now ks) rk (T.ts_timers (K.ks_t ks))) as [rest |]; [| discriminate].
+  set (ks1 := K.with_ts ks _).
+  destruct (T.find_q rk (T.ts_quorum (K.ks_t ks))) as [qc |]; intro H; injection H as <- <-.
+  - pose proof (KP.do_top_reach (kc_of wc) ks1 (T.TPutLocal rk dist qc)) as R.
+    pose proof (KP.do_top_now (kc_of wc) ks1 (T.TPutLocal rk dist qc)) as [N1 N2].
+    split; [exact R |]. split; [exact N1 | rewrite <- Ed; exact N2].
+  - split; [apply KP.reach_refl |]. split; [reflexivity | exact Ed].
 Qed.
 
-Lemma get_same : forall wc s k, SI wc s -> 1 <= wc_ttl wc -> S.get s k 0 = (s, S.find_rec k (S.recs s)).
+Lemma kside_reach : forall wc w u,
+  KP.Reach (wc_scfg wc) (w_store w) (KP.kstore (fst (kside wc w u))).
 Proof.
-  intros wc s k H Ht. unfold S.get. destruct (S.find_rec k (S.recs s)) as [r |] eqn:E; [| reflexivity].
-  assert (Hx : S.rec_expired r 0 = false).
-  { unfold SI in H. rewrite Forall_forall in H. unfold S.rec_expired.
-    rewrite (H r (SP.find_rec_in _ _ _ E)). apply N.leb_gt. lia. }
-  rewrite Hx. reflexivity.
+  intros wc w u. unfold kside. destruct (kev_of wc w u) as [ke |].
+  - apply (KP.kstep_reach (kc_of wc)).
+  - destruct u; try apply KP.reach_refl.
+    destruct (fire1 wc (age (w_ks w) wait) rk (lrank wc target)) as [[ks' o] |] eqn:E; [| apply KP.reach_refl].
+    destruct (fire1_reach _ _ _ _ _ _ E) as [R _]. exact R.
 Qed.
 
-Lemma put_stored : forall c s r,
-  S.r_len r < S.max_size c -> N.of_nat (length (S.recs s)) < S.max_records c ->
-  stored (S.put c s r) (S.r_key r).
+Lemma cstep_store_inv : forall wc w u,
+  1 <= S.max_per_key (wc_scfg wc) -> SP.Inv (wc_scfg wc) (w_store w) ->
+  SP.Inv (wc_scfg wc) (w_store (fst (fst (cstep wc w u)))).
 Proof.
-  intros c s r Hs Hn. unfold stored. rewrite SP.put_lookup.
-  assert (E1 : S.max_size c <=? S.r_len r = false) by (apply N.leb_gt; exact Hs). rewrite E1.
-  destruct (S.find_rec (S.r_key r) (S.recs s)) as [old |].
-  - destruct (S.r_exp old), (S.r_exp r); try discriminate. destruct (n0 <? n); discriminate.
-  - assert (E2 : S.max_records c <=? N.of_nat (length (S.recs s)) = false) by (apply N.leb_gt; exact Hn).
-    rewrite E2. discriminate.
+  intros wc w u Hc HI. rewrite cstep_store.
+  eapply KP.reach_inv; [exact Hc | apply kside_reach | exact HI].
 Qed.
 
-Lemma put_keeps : forall c s r rk, stored s rk -> stored (S.put c s r) rk.
+Lemma store_inv : forall wc m L us,
+  1 <= S.max_per_key (wc_scfg wc) -> SP.Inv (wc_scfg wc) (w_store (fst (crun wc (w0 wc m L) us))).
 Proof.
-  intros c s r rk H. unfold stored in *. destruct (N.eq_dec rk (S.r_key r)) as [-> | Hne].
-  - rewrite SP.put_lookup. destruct (S.max_size c <=? S.r_len r); [exact H |].
-    destruct (S.find_rec (S.r_key r) (S.recs s)) as [old |]; [| congruence].
-    destruct (S.r_exp old), (S.r_exp r); try discriminate. destruct (n0 <? n); discriminate.
-  - destruct (SP.put_other c s r rk Hne) as [E _]. rewrite E. exact H.
+  intros wc m L us Hc.
+  assert (G : forall us w, SP.Inv (wc_scfg wc) (w_store w) -> SP.Inv (wc_scfg wc) (w_store (fst (crun wc w us)))).
+  { clear us. induction us as [| u t IH]; intros w HI; [exact HI |].
+    rewrite crun_cons. cbn [fst]. apply IH. apply cstep_store_inv; assumption. }
+  apply G. apply SP.inv_empty. exact Hc.
 Qed.
 
-Lemma put_length : forall c s r, (length (S.recs (S.put c s r)) <= S (length (S.recs s)))%nat.
+(* the clock never goes back *)
+Lemma kstep_clock : forall c st e, K.ks_now st <= K.ks_now (fst (K.kstep c st e)).
 Proof.
-  intros c s r. unfold S.put. destruct (S.max_size c <=? S.r_len r); [lia |].
-  destruct (S.find_rec (S.r_key r) (S.recs s)) as [old |].
-  - destruct (S.r_exp old), (S.r_exp r); cbn [S.recs]; rewrite ?SP.replace_rec_length; try lia.
-    destruct (n0 <? n); cbn [S.recs]; rewrite ?SP.replace_rec_length; lia.
-  - destruct (S.max_records c <=? N.of_nat (length (S.recs s))); cbn [S.recs]; [lia |].
-    rewrite app_length. cbn. lia.
+  intros c st e. unfold K.kstep. destruct (K.ks_dead st); [cbn; lia |].
+  assert (D : forall o, K.ks_now (fst (K.do_top c st o)) = K.ks_now st) by (intro o; apply KP.do_top_now).
+  assert (Sn : forall x, K.ks_now (K.settle c x) = K.ks_now x) by reflexivity.
+  assert (R : forall order x, K.ks_now (K.refresh_all c x order) = K.ks_now x).
+  { induction order as [| [k dd] t IH]; intro x; cbn [K.refresh_all]; [reflexivity |].
+    destruct (T.find_q k (T.ts_quorum (K.ks_t x))); [| apply IH]. rewrite IH. apply KP.do_top_now. }
+  destruct e.
+  - destruct (pub =? K.PUB_INVALID); [cbn [fst]; rewrite Sn; lia |].
+    destruct (K.k_auto c); cbn [fst]; rewrite Sn, ?D; lia.
+  - destruct (K.decoded_provs (K.k_repl c) provs) as [| [[p d] na] [| x l]]; try (cbn [fst]; rewrite Sn; lia).
+    destruct (p =? from); cbn [fst]; rewrite Sn, ?D; lia.
+  - specialize (D (T.TOp (S.OGet key))). destruct (K.do_top c st (T.TOp (S.OGet key))). cbn [fst] in *. rewrite Sn. lia.
+  - specialize (D (T.TOp (S.OGetProviders key))). destruct (K.do_top c st (T.TOp (S.OGetProviders key))). cbn [fst] in *. rewrite Sn. lia.
+  - cbn [fst]. rewrite Sn, D. lia.
+  - destruct update_local; cbn [fst]; rewrite Sn, ?D; lia.
+  - cbn [fst]. rewrite Sn, D. lia.
+  - cbn [fst]. rewrite Sn, D. lia.
+  - specialize (D (T.TOp (S.ORemoveLocal key dist))). destruct (K.do_top c st (T.TOp (S.ORemoveLocal key dist))) as [st1 r].
+    cbn [fst] in D. destruct r as [o | l | b]; cbn [fst]; try (rewrite Sn; lia).
+    destruct o as [| o | l | b]; cbn [fst]; try (rewrite Sn; lia). destruct b; cbn [fst K.ks_now]; rewrite ?Sn; lia.
+  - specialize (D (T.TOp (S.OGet key))). destruct (K.do_top c st (T.TOp (S.OGet key))). cbn [fst] in *. rewrite Sn. lia.
+  - cbn [fst]. rewrite Sn, D. lia.
+  - set (st1 := K.mkKS (K.ks_t st) (K.ks_now st + d) false).
+    assert (D1 : K.ks_now (fst (K.do_top c st1 T.TPoll)) = K.ks_now st1) by apply KP.do_top_now.
+    destruct (K.do_top c st1 T.TPoll) as [st2 r]. cbn [fst] in D1.
+    destruct r as [o | l | b]; cbn [fst]; try (rewrite D1; cbn; lia).
+    destruct (K.same_keys _ _); cbn [fst]; rewrite ?Sn, ?R, D1; cbn; lia.
 Qed.
 
-(* what a composed step does to the store: nothing, or one put of a record of this node *)
-Lemma side_k_store : forall wc w e ik,
-  snd (side_k wc w e ik) = w_store w \/
-  (snd (side_k wc w e ik) = S.put (wc_scfg wc) (w_store w) (local_record wc ik) /\
-   exists id, e = EFut id (RRead MPutValue)).
+Lemma kside_clock : forall wc w u, w_clock w <= K.ks_now (fst (kside wc w u)).
 Proof.
-  intros wc w e ik. unfold side_k. destruct e; cbn [snd]; try (left; reflexivity).
-  - destruct (aget p (conn (w_st w))); left; reflexivity.
-  - destruct r as [| | | m |]; try (left; reflexivity).
-    destruct (find_fut id (futs (w_st w))) as [f |]; [| left; reflexivity].
-    destruct (res_ok (f_kind f) (RRead m)); [| left; reflexivity].
-    destruct (f_q f); [left; reflexivity |].
-    destruct m; cbn [trunc_msg]; try (left; reflexivity).
-    destruct (wc_vauto wc); [right; split; [reflexivity | eauto] | left; reflexivity].
+  intros wc w u. unfold kside, w_clock. destruct (kev_of wc w u) as [ke |]; [apply kstep_clock |].
+  destruct u; cbn [fst]; try lia.
+  - destruct (fire1 wc (age (w_ks w) wait) rk (lrank wc target)) as [[ks' o] |] eqn:E; cbn [fst]; [| lia].
+    destruct (fire1_reach _ _ _ _ _ _ E) as (_ & N1 & _). rewrite N1. cbn. lia.
+  - cbn. lia.
 Qed.
 
-Lemma elab_store : forall wc w u, SI wc (w_store w) -> 1 <= wc_ttl wc ->
-  snd (elab wc w u) = w_store w \/
-  exists rk, snd (elab wc w u) = S.put (wc_scfg wc) (w_store w) (local_record wc rk).
+Lemma cstep_clock : forall wc w u, w_clock w <= w_clock (fst (fst (cstep wc w u))).
+Proof. intros. unfold w_clock at 2. rewrite cstep_ks, elab_ks. apply kside_clock. Qed.
+
+Lemma crun_clock : forall wc us w, w_clock w <= w_clock (fst (crun wc w us)).
 Proof.
-  intros wc w u HS Ht. destruct u as [q c target | q qr rk given | rk | p a | rk | q rk target | id rq | e]; cbn [elab].
-  - destruct c; cbn [snd]; eauto. rewrite (get_same wc _ rk HS Ht). left. reflexivity.
-  - destruct (rt_filter wc (w_rt w) given). left. reflexivity.
-  - right. exists rk. reflexivity.
-  - left. reflexivity.
-  - left. reflexivity.
-  - destruct (fire_due w rk); left; reflexivity.
-  - pose proof (side_k_store wc w (EFut id (RRead (msg_of_req rq))) (req_key rq)) as Hs.
-    destruct (side_k wc w (EFut id (RRead (msg_of_req rq))) (req_key rq)) as [t' s']. cbn [snd] in *.
-    destruct Hs as [Hs | [Hs (id' & Hm)]].
-    + subst s'. destruct rq; try (left; reflexivity).
-      destruct (inbound_read (w_st w) id); [| left; reflexivity].
-      rewrite (get_same wc _ rk HS Ht). left. reflexivity.
-    + destruct rq; cbn [msg_of_req] in Hm; try discriminate Hm. right. exists (req_key (IPutValue rk)). exact Hs.
-  - pose proof (side_k_store wc w e INBOUND_KEY) as Hs. unfold side.
-    destruct (side_k wc w e INBOUND_KEY) as [t' s']. cbn [snd] in *.
-    destruct Hs as [Hs | [Hs _]]; [left; exact Hs | right; exists INBOUND_KEY; exact Hs].
+  intros wc us. induction us as [| u t IH]; intro w; [cbn; lia |].
+  rewrite crun_cons. cbn [fst]. pose proof (cstep_clock wc w u). specialize (IH (fst (fst (cstep wc w u)))). lia.
 Qed.
 
-Lemma cstep_SI : forall wc w u, SI wc (w_store w) -> 1 <= wc_ttl wc -> SI wc (w_store (fst (fst (cstep wc w u)))).
-Proof.
-  intros wc w u HS Ht. rewrite cstep_store. destruct (elab_store wc w u HS Ht) as [E | [rk E]]; rewrite E.
-  - exact HS.
-  - apply put_SI. exact HS.
-Qed.
-
-Lemma cstep_stored : forall wc w u rk, SI wc (w_store w) -> 1 <= wc_ttl wc ->
-  stored (w_store w) rk -> stored (w_store (fst (fst (cstep wc w u)))) rk.
-Proof.
-  intros wc w u rk HS Ht H. rewrite cstep_store. destruct (elab_store wc w u HS Ht) as [E | [rk' E]]; rewrite E.
-  - exact H.
-  - apply put_keeps. exact H.
-Qed.
-
-Lemma cstep_length : forall wc w u, SI wc (w_store w) -> 1 <= wc_ttl wc ->
-  (length (S.recs (w_store (fst (fst (cstep wc w u))))) <= S (length (S.recs (w_store w))))%nat.
-Proof.
-  intros wc w u HS Ht. rewrite cstep_store. destruct (elab_store wc w u HS Ht) as [E | [rk' E]]; rewrite E.
-  - lia.
-  - apply put_length.
-Qed.
-
-Lemma crun_store : forall wc us w rk, SI wc (w_store w) -> 1 <= wc_ttl wc ->
-  let w' := fst (crun wc w us) in
-  SI wc (w_store w') /\ (stored (w_store w) rk -> stored (w_store w') rk) /\
-  (length (S.recs (w_store w')) <= length us + length (S.recs (w_store w)))%nat.
-Proof.
-  intros wc us. induction us as [| u t IH]; intros w rk HS Ht; cbn zeta.
-  - split; [exact HS |]. split; [tauto | cbn; lia].
-  - rewrite crun_cons. cbn [fst].
-    destruct (IH (fst (fst (cstep wc w u))) rk (cstep_SI wc w u HS Ht) Ht) as (I1 & I2 & I3).
-    split; [exact I1 |]. split.
-    + intro H. apply I2. apply cstep_stored; assumption.
-    + pose proof (cstep_length wc w u HS Ht). cbn [length]. lia.
-Qed.
-
-Lemma reach_SI : forall wc m L us, 1 <= wc_ttl wc -> SI wc (w_store (fst (crun wc (w0 wc m L) us))).
-Proof.
-  intros wc m L us Ht. assert (S0 : SI wc (w_store (w0 wc m L))) by constructor.
-  apply (crun_store wc us (w0 wc m L) 0 S0 Ht).
-Qed.
-
-(* ---- GetRecord ---- *)
+(* ---- GetRecord and the local store ---- *)
 Definition needed_of (g : gcfg) (qr : quorum) : N := match qr with QOne => 1 | QN n => n | QAll => g_k g end.
 
+(* a record is live: stored under its key and not expired at the clock reading *)
+Definition live_rec (s : S.store) (now rk : N) : Prop :=
+  exists r, S.find_rec rk (S.recs s) = Some r /\ S.rec_expired r now = false.
+
+Lemma get_hit : forall c st key, K.ks_dead st = false ->
+  (is_hit (snd (K.kstep c st (K.KCmdGetRecord key))) = true <-> live_rec (KP.kstore st) (K.ks_now st) key) /\
+  (forall from, is_hit (snd (K.kstep c st (K.KGetValue from key))) = true <-> live_rec (KP.kstore st) (K.ks_now st) key).
+Proof.
+  intros c st key Hd.
+  assert (G : is_hit (snd (let '(st1, r) := K.do_top c st (T.TOp (S.OGet key)) in
+                           (K.settle c st1,
+                            match r with
+                            | T.TOut (S.RRec (Some r0)) => K.KRec (Some (r0, K.remaining (K.ks_now st) r0))
+                            | _ => K.KRec None
+                            end))) = true <-> live_rec (KP.kstore st) (K.ks_now st) key).
+  { rewrite KP.do_top_get. cbn [snd]. unfold live_rec.
+    destruct (snd (S.get (KP.kstore st) key (K.ks_now st))) as [r |] eqn:Eg; cbn [is_hit].
+    - split; [intros _ | reflexivity]. apply TP.get_complete in Eg. destruct Eg as [E1 E2].
+      exists r. split; [exact E1 |]. unfold S.rec_expired. destruct (S.r_exp r) as [t |]; [| reflexivity].
+      specialize (E2 t eq_refl). apply N.leb_gt. exact E2.
+    - split; [discriminate |]. intros (r & E1 & E2). exfalso.
+      assert (Some r = None); [| discriminate]. rewrite <- Eg. symmetry. apply TP.get_complete. split; [exact E1 |].
+      intros t Ht. unfold S.rec_expired in E2. rewrite Ht in E2. apply N.leb_gt in E2. exact E2. }
+  split; [| intro from]; unfold K.kstep; rewrite Hd; exact G.
+Qed.
+
 Lemma get_record_step : forall wc w q qr rk target,
-  SI wc (w_store w) -> 1 <= wc_ttl wc ->
   let g := wc_g wc in
-  let hit := match S.find_rec rk (S.recs (w_store w)) with Some _ => true | None => false end in
+  let ans := K.kstep (kc_of wc) (w_ks w) (K.KCmdGetRecord rk) in
+  let hit := is_hit (snd ans) in
   let lookup := start_lookup g (w_st w) q LRec qr
-                  (lcfg g V.C15.Model.KRecord (needed_of g qr) (if hit then 1 else 0) (dists_of wc target))
+                  (lcfg g V.C15.Model.KRecord (needed_of g qr) (if hit then 1 else 0) [] (dists_of wc target))
                   (seeds_of wc (w_rt w) target) in
   fst (cstep wc w (UCmd q (UCGet qr rk) target)) =
   match qr, hit with
-  | QOne, true => (w, [OPartial q (g_local g) LOCAL_REC; OGetRecSuccess q])
-  | _, _ => (mkW lookup (w_rt w) (w_store w) (w_prov w) (w_timers w),
-             if hit then [OPartial q (g_local g) LOCAL_REC] else [])
+  | QOne, true => (mkW (w_st w) (w_rt w) (fst ans), [OPartial q (g_local g) LOCAL_REC; OGetRecSuccess q])
+  | _, _ => (mkW lookup (w_rt w) (fst ans), if hit then [OPartial q (g_local g) LOCAL_REC] else [])
   end.
 Proof.
-  intros wc w q qr rk target HS Ht g hit lookup. unfold cstep. cbn [elab prov_side fst snd].
-  rewrite (get_same wc _ rk HS Ht). subst hit lookup.
-  destruct (S.find_rec rk (S.recs (w_store w))) as [r |]; cbn [step on_cmd];
-    destruct qr; cbn [fst snd needed_of]; try reflexivity.
-  destruct w; reflexivity.
+  intros wc w q qr rk target g ans hit lookup. unfold cstep. cbn [elab kside kev_of].
+  fold ans. fold hit. cbn [step on_cmd]. subst lookup. fold g.
+  destruct qr as [| n |]; destruct hit; reflexivity.
 Qed.
 
-(* the event puts a record with key rk into the store: store_record, the local half of put_record, or —
-   with automatic validation — a PUT_VALUE of a remote peer read from an inbound substream *)
-Definition stores (wc : wcfg) (w : world) (u : uev) (rk : N) : Prop :=
-  u = UStoreRecord rk \/ (exists q0 qr0 t0, u = UCmd q0 (UCPut qr0 rk) t0) \/
-  (wc_vauto wc = true /\ exists id, u = UInReq id (IPutValue rk) /\ inbound_read (w_st w) id = true).
+(* ---- a stored record is found until it expires ---- *)
+(* events that may write a record under key rk *)
+Definition uwrites (u : uev) (rk : N) : bool :=
+  match u with
+  | UCmd _ (UCPut _ k _ _) _ => k =? rk
+  | UPutToPeers _ _ k _ _ _ upd _ => upd && (k =? rk)
+  | UStoreRecord k _ _ _ => k =? rk
+  | UInReq _ (IPutValue k _ _ _) => k =? rk
+  | _ => false
+  end.
 
-Lemma stores_put : forall wc w u rk, stores wc w u rk ->
-  snd (elab wc w u) = S.put (wc_scfg wc) (w_store w) (local_record wc rk).
+Lemma put_local_recs : forall c s k dist now, S.recs (fst (S.put_local_provider c s k dist now)) = S.recs s.
 Proof.
-  intros wc w u rk [-> | [(q0 & qr0 & t0 & ->) | (Hm & id & -> & Hr)]]; try reflexivity.
-  rewrite <- cstep_store. apply auto_validation; assumption.
+  intros. unfold S.put_local_provider.
+  pose proof (KP.put_provider_recs c s k S.LOCAL_ID dist 0 now) as H.
+  destruct (S.put_provider c s k S.LOCAL_ID dist 0 now) as [s1 ok]. cbn [fst] in H. destruct ok; cbn [fst S.recs]; exact H.
 Qed.
 
-(* a record this node stored is found by every later GetRecord(Quorum::One) without the network *)
-Lemma put_then_get : forall wc m L us1 u us2 q rk target,
-  1 <= wc_ttl wc -> REC_LEN < S.max_size (wc_scfg wc) ->
-  N.of_nat (length (us1 ++ u :: us2)) <= S.max_records (wc_scfg wc) ->
-  stores wc (fst (crun wc (w0 wc m L) us1)) u rk ->
-  let w := fst (crun wc (w0 wc m L) (us1 ++ u :: us2)) in
-  fst (cstep wc w (UCmd q (UCGet QOne rk) target)) =
-  (w, [OPartial q (g_local (wc_g wc)) LOCAL_REC; OGetRecSuccess q]).
+Lemma remove_local_recs : forall s k dist, S.recs (fst (S.remove_local_provider s k dist)) = S.recs s.
 Proof.
-  intros wc m L us1 u us2 q rk target Ht Hsz Hn Hu w.
-  assert (S0 : SI wc (w_store (w0 wc m L))) by constructor.
-  destruct (crun_store wc us1 (w0 wc m L) rk S0 Ht) as (S1 & _ & L1).
-  set (w1 := fst (crun wc (w0 wc m L) us1)) in *.
-  assert (St : stored (w_store (fst (fst (cstep wc w1 u)))) rk).
-  { rewrite cstep_store.
-    assert (E : snd (elab wc w1 u) = S.put (wc_scfg wc) (w_store w1) (local_record wc rk)) by (apply stores_put; exact Hu).
-    rewrite E. change rk with (S.r_key (local_record wc rk)) at 2. apply put_stored; [exact Hsz |].
-    rewrite app_length in Hn. cbn [length] in *. cbn in L1. lia. }
-  assert (Ew : w = fst (crun wc (fst (fst (cstep wc w1 u))) us2)).
-  { subst w w1. rewrite crun_app, crun_cons. reflexivity. }
-  destruct (crun_store wc us2 (fst (fst (cstep wc w1 u))) rk (cstep_SI wc w1 u S1 Ht) Ht) as (S2 & K2 & _).
-  rewrite <- Ew in S2, K2. specialize (K2 St).
-  rewrite (get_record_step wc w q QOne rk target S2 Ht). unfold stored in K2.
-  destruct (S.find_rec rk (S.recs (w_store w))); [reflexivity | congruence].
+  intros. unfold S.remove_local_provider. destruct (negb _); [reflexivity |].
+  destruct (S.find_pk k (S.pkeys s)); [| reflexivity]. destruct (S.search dist l); [| reflexivity].
+  destruct (S.remove_nth i l); reflexivity.
+Qed.
+
+Lemma get_keeps : forall s k now rk r,
+  S.find_rec rk (S.recs s) = Some r -> S.rec_expired r now = false ->
+  S.find_rec rk (S.recs (fst (S.get s k now))) = Some r.
+Proof.
+  intros s k now rk r Hf He. destruct (SP.get_pure s k now) as (_ & _ & H). rewrite H, Hf, He.
+  rewrite andb_false_r. reflexivity.
+Qed.
+
+Lemma put_keeps_other : forall c s x rk r, S.r_key x <> rk ->
+  S.find_rec rk (S.recs s) = Some r -> S.find_rec rk (S.recs (S.put c s x)) = Some r.
+Proof. intros c s x rk r Hn Hf. destruct (SP.put_other c s x rk) as [H _]; [congruence |]. rewrite H. exact Hf. Qed.
+
+Lemma do_top_put_local_recs : forall c st k dist q,
+  S.recs (KP.kstore (fst (K.do_top c st (T.TPutLocal k dist q)))) = S.recs (KP.kstore st).
+Proof.
+  intros. unfold K.do_top, KP.kstore. cbn [T.tstep].
+  pose proof (TP.put_local_q_store (K.k_scfg c) (K.ks_t st) k dist q (K.ks_now st)) as [H _].
+  destruct (T.put_local_q (K.k_scfg c) (K.ks_t st) k dist q (K.ks_now st)) as [ts' b]. cbn [fst K.with_ts K.ks_t] in *.
+  rewrite H. apply put_local_recs.
+Qed.
+
+Definition kwrites (e : K.kev) (rk : N) : bool :=
+  match e with
+  | K.KPutValue _ k _ _ _ _ | K.KCmdPutRecord k _ _ _ | K.KCmdStoreRecord k _ _ _ _ => k =? rk
+  | K.KCmdPutToPeers k _ _ _ _ upd => upd && (k =? rk)
+  | K.KAge _ _ => true
+  | _ => false
+  end.
+
+Lemma kstep_keeps : forall c st e rk r, kwrites e rk = false ->
+  S.find_rec rk (S.recs (KP.kstore st)) = Some r -> S.rec_expired r (K.ks_now st) = false ->
+  S.find_rec rk (S.recs (KP.kstore (fst (K.kstep c st e)))) = Some r.
+Proof.
+  intros c st e rk r Hw Hf He. unfold K.kstep. destruct (K.ks_dead st); [exact Hf |].
+  assert (P : forall x, S.r_key x <> rk ->
+              S.find_rec rk (S.recs (KP.kstore (K.settle c (fst (K.do_top c st (T.TOp (S.OPut x))))))) = Some r).
+  { intros x Hx. rewrite KP.settle_store, KP.do_top_store. cbn [S.step fst]. apply put_keeps_other; assumption. }
+  assert (G : forall k, S.find_rec rk (S.recs (KP.kstore (fst (K.do_top c st (T.TOp (S.OGet k)))))) = Some r).
+  { intro k. rewrite KP.do_top_store. cbn [S.step]. destruct (S.get (KP.kstore st) k (K.ks_now st)) as [s' o] eqn:Eg.
+    cbn [fst]. change s' with (fst (s', o)). rewrite <- Eg. apply get_keeps; assumption. }
+  assert (Q : forall x, S.find_rec rk (S.recs (KP.kstore (K.settle c x))) = S.find_rec rk (S.recs (KP.kstore x)))
+    by (intro x; rewrite KP.settle_store; reflexivity).
+  destruct e; cbn [kwrites] in Hw.
+  - destruct (pub =? K.PUB_INVALID); [cbn [fst]; rewrite Q; exact Hf |].
+    destruct (K.k_auto c); cbn [fst]; [| rewrite Q; exact Hf].
+    apply P. cbn [K.rec_of S.r_key]. apply N.eqb_neq. exact Hw.
+  - destruct (K.decoded_provs (K.k_repl c) provs) as [| [[p d] na] [| x l]]; try (cbn [fst]; rewrite Q; exact Hf).
+    destruct (p =? from); cbn [fst]; rewrite Q; [| exact Hf]. rewrite KP.do_top_store. cbn [S.step].
+    pose proof (KP.put_provider_recs (K.k_scfg c) (KP.kstore st) key p d (N.min na K.WIRE_MAX_ADDRS) (K.ks_now st)) as R.
+    destruct (S.put_provider _ _ _ _ _ _ _). cbn [fst] in *. rewrite R. exact Hf.
+  - specialize (G key). destruct (K.do_top c st (T.TOp (S.OGet key))). cbn [fst] in *. rewrite Q. exact G.
+  - pose proof (KP.do_top_store c st (S.OGetProviders key)) as D. cbn [S.step] in D.
+    destruct (K.do_top c st (T.TOp (S.OGetProviders key))) as [st1 o]. cbn [fst] in *. rewrite Q, D.
+    destruct (SP.get_providers_pure (KP.kstore st) key (K.ks_now st)) as (R & _).
+    destruct (S.get_providers (KP.kstore st) key (K.ks_now st)). cbn [fst] in *. rewrite R. exact Hf.
+  - cbn [fst]. apply P. cbn [K.rec_of S.r_key]. apply N.eqb_neq. exact Hw.
+  - destruct update_local; cbn [fst]; [| rewrite Q; exact Hf]. apply P. cbn [K.rec_of S.r_key]. apply N.eqb_neq. exact Hw.
+  - cbn [fst]. apply P. cbn [K.rec_of S.r_key]. apply N.eqb_neq. exact Hw.
+  - cbn [fst]. rewrite Q, do_top_put_local_recs. exact Hf.
+  - pose proof (KP.do_top_store c st (S.ORemoveLocal key dist)) as D. cbn [S.step] in D.
+    destruct (K.do_top c st (T.TOp (S.ORemoveLocal key dist))) as [st1 o]. cbn [fst] in D.
+    assert (R1 : S.find_rec rk (S.recs (KP.kstore st1)) = Some r).
+    { rewrite D. pose proof (remove_local_recs (KP.kstore st) key dist) as R.
+      destruct (S.remove_local_provider (KP.kstore st) key dist). cbn [fst] in *. rewrite R. exact Hf. }
+    destruct o as [o | l | b]; cbn [fst]; try (rewrite Q; exact R1).
+    destruct o as [| o | l | b]; cbn [fst]; try (rewrite Q; exact R1). destruct b; cbn [fst]; [rewrite Q |]; exact R1.
+  - specialize (G key). destruct (K.do_top c st (T.TOp (S.OGet key))). cbn [fst] in *. rewrite Q. exact G.
+  - cbn [fst]. pose proof (KP.do_top_store c st (S.OGetProviders key)) as D. cbn [S.step] in D.
+    rewrite Q, D.
+    destruct (SP.get_providers_pure (KP.kstore st) key (K.ks_now st)) as (R & _).
+    destruct (S.get_providers (KP.kstore st) key (K.ks_now st)). cbn [fst] in *. rewrite R. exact Hf.
+  - discriminate Hw.
+Qed.
+
+Lemma kev_writes : forall wc w u ke rk, kev_of wc w u = Some ke -> uwrites u rk = false -> kwrites ke rk = false.
+Proof.
+  intros wc w u ke rk. destruct u as [q c target | q qr k len pub exp upd given | k len pub exp | p a | k target | q k wait target | d | id rq | e];
+    cbn [kev_of uwrites]; try discriminate.
+  - destruct c; intro H; try discriminate H; injection H as <-; cbn [kwrites]; auto.
+  - intro H; injection H as <-. cbn [kwrites]. auto.
+  - intro H; injection H as <-. cbn [kwrites]. auto.
+  - intro H; injection H as <-. reflexivity.
+  - destruct (inbound_read (w_st w) id); [| discriminate].
+    destruct rq; try discriminate; intro H; injection H as <-; cbn [kwrites]; auto.
+Qed.
+
+Lemma kside_keeps : forall wc w u rk r, uwrites u rk = false ->
+  S.find_rec rk (S.recs (w_store w)) = Some r -> S.rec_expired r (w_clock w) = false ->
+  S.find_rec rk (S.recs (KP.kstore (fst (kside wc w u)))) = Some r.
+Proof.
+  intros wc w u rk r Hw Hf He. unfold kside. destruct (kev_of wc w u) as [ke |] eqn:Ek.
+  - apply kstep_keeps; [eapply kev_writes; eassumption | exact Hf | exact He].
+  - destruct u; cbn [fst]; try exact Hf.
+    destruct (fire1 wc (age (w_ks w) wait) rk0 (lrank wc target)) as [[ks' o] |] eqn:E; cbn [fst]; [| exact Hf].
+    revert E. unfold fire1. destruct (K.ks_dead (age (w_ks w) wait)); [discriminate |].
+    destruct (take_due _ _ _) as [rest |]; [| discriminate].
+    set (ks1 := K.with_ts _ _).
+    destruct (T.find_q rk0 _) as [qc |]; intro H; injection H as <- <-.
+    + rewrite KP.settle_store, do_top_put_local_recs. exact Hf.
+    + exact Hf.
+Qed.
+
+Lemma rec_expired_mono : forall r a b, a <= b -> S.rec_expired r b = false -> S.rec_expired r a = false.
+Proof.
+  intros r a b Hab. unfold S.rec_expired. destruct (S.r_exp r) as [t |]; [| reflexivity].
+  intro H. apply N.leb_gt in H. apply N.leb_gt. lia.
+Qed.
+
+Fixpoint no_write (rk : N) (us : list uev) : Prop :=
+  match us with [] => True | u :: t => uwrites u rk = false /\ no_write rk t end.
+
+Lemma crun_keeps : forall wc us w rk r, no_write rk us ->
+  S.find_rec rk (S.recs (w_store w)) = Some r ->
+  S.rec_expired r (w_clock (fst (crun wc w us))) = false ->
+  S.find_rec rk (S.recs (w_store (fst (crun wc w us)))) = Some r.
+Proof.
+  intros wc us. induction us as [| u t IH]; intros w rk r Hn Hf He; [exact Hf |].
+  destruct Hn as [Hu Ht]. rewrite crun_cons in *. cbn [fst] in *. apply IH; [exact Ht | | exact He].
+  rewrite cstep_store. apply kside_keeps; [exact Hu | exact Hf |].
+  eapply rec_expired_mono; [| exact He].
+  pose proof (cstep_clock wc w u). pose proof (crun_clock wc t (fst (fst (cstep wc w u)))). lia.
+Qed.
+
+(* a record in the store is found by every later GetRecord(Quorum::One) — the operation answers at once,
+   from the local store — whatever happened in between, until the record expires or is written again *)
+Lemma put_then_get : forall wc w us q rk r target,
+  S.find_rec rk (S.recs (w_store w)) = Some r -> no_write rk us ->
+  let w' := fst (crun wc w us) in
+  S.rec_expired r (w_clock w') = false -> K.ks_dead (w_ks w') = false ->
+  snd (fst (cstep wc w' (UCmd q (UCGet QOne rk) target))) =
+    [OPartial q (g_local (wc_g wc)) LOCAL_REC; OGetRecSuccess q] /\
+  w_st (fst (fst (cstep wc w' (UCmd q (UCGet QOne rk) target)))) = w_st w'.
+Proof.
+  intros wc w us q rk r target Hf Hn w' He Hd.
+  pose proof (crun_keeps wc us w rk r Hn Hf He) as Hf'. fold w' in Hf'.
+  pose proof (get_record_step wc w' q QOne rk target) as G. cbn zeta in G.
+  destruct (get_hit (kc_of wc) (w_ks w') rk Hd) as [[_ Hh] _].
+  rewrite Hh in G; [| exists r; split; [exact Hf' | exact He]].
+  destruct (cstep wc w' (UCmd q (UCGet QOne rk) target)) as [[w2 o] ok]. cbn [fst snd] in *.
+  injection G as -> ->. split; reflexivity.
+Qed.
+
+(* ---- incoming records ---- *)
+(* IncomingRecordValidationMode::Manual: no event of the loop and no request of a remote peer adds or
+   alters a record; only the user's store_record / put_record / put_record_to_peers do *)
+Lemma manual_validation : forall wc w u k r,
+  wc_vauto wc = false ->
+  (exists e, u = UEv e) \/ (exists id rq, u = UInReq id rq) ->
+  S.find_rec k (S.recs (w_store (fst (fst (cstep wc w u))))) = Some r ->
+  S.find_rec k (S.recs (w_store w)) = Some r.
+Proof.
+  intros wc w u k r Hm Hu. rewrite cstep_store.
+  destruct Hu as [[e ->] | (id & rq & ->)]; unfold kside.
+  - cbn [kev_of fst]. auto.
+  - destruct (kev_of wc w (UInReq id rq)) as [ke |] eqn:Ek; [| cbn [fst]; auto].
+    destruct (K.ks_dead (w_ks w)) eqn:Ed.
+    + unfold K.kstep. rewrite Ed. cbn [fst]. auto.
+    + apply (KP.manual_mode_no_remote_record (kc_of wc) (w_ks w) ke Ed); [| exact Hm].
+      cbn [kev_of] in Ek. destruct (inbound_read (w_st w) id); [| discriminate].
+      destruct rq; try discriminate; injection Ek as <-; reflexivity.
+Qed.
+
+(* in the Automatic mode the record of an inbound PUT_VALUE is handed to the store as soon as the request
+   has been read, with the expiry computed from the ttl of the wire *)
+Lemma auto_validation : forall wc w id rk len pub ttl,
+  wc_vauto wc = true -> inbound_read (w_st w) id = true -> K.ks_dead (w_ks w) = false ->
+  pub <> K.PUB_INVALID ->
+  w_store (fst (fst (cstep wc w (UInReq id (IPutValue rk len pub ttl))))) =
+  S.put (wc_scfg wc) (w_store w)
+        (K.rec_of rk LOCAL_REC len pub (if ttl =? 0 then None else Some (w_clock w + ttl))).
+Proof.
+  intros wc w id rk len pub ttl Hm Hf Hd Hp. rewrite cstep_store.
+  unfold kside. cbn [kev_of]. rewrite Hf. unfold K.kstep. rewrite Hd.
+  apply N.eqb_neq in Hp. rewrite Hp. cbn [K.k_auto kc_of]. rewrite Hm. cbn [fst].
+  change (T.ts_store (K.ks_t ?x)) with (KP.kstore x). rewrite KP.settle_store, KP.do_top_store. reflexivity.
 Qed.
 
 (* ------------------------------------------------------------------ the base theorems on composed histories *)
@@ -1010,7 +1111,7 @@ Qed.
 
 Definition uev_in_U (U : list N) (u : uev) : Prop :=
   match u with
-  | UPutToPeers _ _ _ given => forall p, In p given -> In p U
+  | UPutToPeers _ _ _ _ _ _ _ given => forall p, In p given -> In p U
   | UEv e => ev_in_U U e
   | _ => True
   end.
@@ -1034,17 +1135,20 @@ Lemma elab_in_U : forall wc w u U,
   keys_ok wc -> (forall p, In p (UNKNOWN :: map fst (wc_keys wc)) -> In p U) ->
   uev_in_U U u -> ev_in_U U (fst (fst (elab wc w u))).
 Proof.
-  intros wc w u U Hk HU Hu. destruct u as [q c target | q qr rk given | rk | p a | rk | q rk target | id rq | e].
+  intros wc w u U Hk HU Hu. destruct u as [q c target | q qr rk len pub exp upd given | rk len pub exp | p a | rk target | q rk wait target | d | id rq | e].
   - destruct (elab_cmd wc w q c target) as [cmd E]. rewrite E. cbn [ev_in_U]. apply seeds_in_U. exact HU.
-  - destruct (elab_put_to_peers wc w q qr rk given) as (ps & E & Eps). rewrite E. cbn [ev_in_U]. subst ps.
+  - destruct (elab_put_to_peers wc w q qr rk len pub exp upd given) as (ps & E & Eps). rewrite E. cbn [ev_in_U]. subst ps.
     intros p Hp. apply Hu. apply (rt_filter_named wc given (w_rt w) p Hk Hp).
   - exact I.
   - exact I.
   - exact I.
-  - cbn [elab]. destruct (fire_due w rk); cbn [fst ev_in_U]; [apply seeds_in_U; exact HU | exact I].
-  - cbn [elab]. destruct (side_k wc w (EFut id (RRead (msg_of_req rq))) (req_key rq)). cbn [fst ev_in_U].
-    destruct rq; cbn [msg_of_req msg_in]; try exact I; intros ? [].
-  - cbn [elab]. destruct (side wc w e). exact Hu.
+  - cbn [elab]. destruct (fire1 wc (age (w_ks w) wait) rk (lrank wc target)) as [[k0 [qc |]] |];
+      cbn [fst ev_in_U]; [apply seeds_in_U; exact HU | exact I | exact I].
+  - exact I.
+  - cbn [elab fst ev_in_U].
+    destruct rq; cbn [msg_of_req msg_in]; try exact I; try (intros ? []).
+    destruct (pub =? K.PUB_INVALID); exact I.
+  - exact Hu.
 Qed.
 
 Lemma elabs_in_U : forall wc us w U,
@@ -1086,175 +1190,333 @@ Qed.
 
 (* ------------------------------------------------------------------ provider refresh: the store's timers *)
 
-Lemma cstep_prov : forall wc w u,
-  w_prov (fst (fst (cstep wc w u))) = fst (prov_side w u) /\ w_timers (fst (fst (cstep wc w u))) = snd (prov_side w u).
+Lemma qdecode_qcode : forall qr, qr <> QN 0 -> qdecode (qcode qr) = qr.
 Proof.
-  intros. unfold cstep. destruct (elab wc w u) as [[e t'] s'].
-  destruct (step (wc_g wc) (w_st w) e) as [[st' o] ok]. split; reflexivity.
+  destruct qr as [| n |]; intro H; try reflexivity. cbn [qcode].
+  destruct n as [| p]; [congruence |]. unfold qdecode.
+  destruct (N.pos p + 1) eqn:E; [lia |]. destruct p0; try (f_equal; lia).
 Qed.
 
-(* the quorum of the last start_providing(rk) that no stop_providing(rk) has followed *)
-Fixpoint last_prov (rk : N) (acc : option quorum) (us : list uev) : option quorum :=
-  match us with
-  | [] => acc
-  | UCmd _ (UCProv qr rk') _ :: t => last_prov rk (if rk' =? rk then Some qr else acc) t
-  | UStopProviding rk' :: t => last_prov rk (if rk' =? rk then None else acc) t
-  | _ :: t => last_prov rk acc t
+(* a refresh future that has completed starts an ADD_PROVIDER operation exactly when the key is still in
+   local_providers, with the quorum stored there, seeded from the current table *)
+Lemma refresh_due : forall wc w q rk wait target rest,
+  K.ks_dead (w_ks w) = false ->
+  take_due (w_clock w + wait) rk (w_timers w) = Some rest ->
+  fst (fst (elab wc w (UFire q rk wait target))) =
+  match T.find_q rk (w_quorum w) with
+  | Some qc => ECmd q (CRefresh (qdecode qc)) (dists_of wc target) (seeds_of wc (w_rt w) target)
+  | None => ENop
+  end.
+Proof.
+  intros wc w q rk wait target rest Hd Ht. cbn [elab]. unfold fire1. cbn [age K.ks_dead K.ks_now K.ks_t].
+  rewrite Hd. unfold w_clock, w_timers in Ht. rewrite Ht. unfold w_quorum.
+  destruct (T.find_q rk (T.ts_quorum (K.ks_t (w_ks w)))); reflexivity.
+Qed.
+
+(* no refresh future of the key has completed: nothing is taken, the event is not a step of the loop *)
+Lemma refresh_not_due : forall wc w q rk wait target,
+  take_due (w_clock w + wait) rk (w_timers w) = None ->
+  uvalid wc w (UFire q rk wait target) = false.
+Proof.
+  intros wc w q rk wait target Ht. unfold uvalid. rewrite Ht. apply andb_false_r.
+Qed.
+
+Lemma settle_keeps_timer : forall c st t,
+  1 <= K.k_interval c -> In t (T.ts_timers (K.ks_t st)) ->
+  match T.tm_due t with Some d => K.ks_now st < d | None => True end ->
+  exists t', In t' (T.ts_timers (K.ks_t (K.settle c st))) /\ T.tm_key t' = T.tm_key t.
+Proof.
+  intros c st t Hi Hin Hd. exists (T.arm (K.k_interval c) (K.ks_now st) t). split.
+  - unfold K.settle. cbn [T.tstep fst K.with_ts K.ks_t T.ts_timers]. apply filter_In. split.
+    + apply in_map. exact Hin.
+    + unfold T.is_due, T.arm. destruct (T.tm_due t) as [d |] eqn:E.
+      * rewrite E. apply negb_true_iff. apply N.leb_gt. exact Hd.
+      * cbn [T.tm_due]. apply negb_true_iff. apply N.leb_gt. lia.
+  - unfold T.arm. destruct (T.tm_due t); reflexivity.
+Qed.
+
+(* ... and when the store accepts the refreshed provider record, the next refresh future of the key is armed *)
+Lemma refresh_rearms : forall wc w q rk wait target rest qc,
+  1 <= wc_interval wc -> K.ks_dead (w_ks w) = false ->
+  take_due (w_clock w + wait) rk (w_timers w) = Some rest ->
+  T.find_q rk (w_quorum w) = Some qc ->
+  snd (S.put_local_provider (wc_scfg wc) (w_store w) rk (lrank wc target) (w_clock w + wait)) = true ->
+  exists t, In t (w_timers (fst (fst (cstep wc w (UFire q rk wait target))))) /\ T.tm_key t = rk.
+Proof.
+  intros wc w q rk wait target rest qc Hi Hd Ht Hq Hok.
+  unfold w_timers at 1. rewrite cstep_ks, elab_ks. unfold kside. cbn [kev_of]. unfold fire1.
+  cbn [age K.ks_dead K.ks_now K.ks_t]. rewrite Hd. unfold w_clock, w_timers in Ht. rewrite Ht.
+  unfold w_quorum in Hq. rewrite Hq. cbn [fst].
+  set (ks1 := K.with_ts _ _).
+  assert (E : exists t, In t (T.ts_timers (K.ks_t (fst (K.do_top (kc_of wc) ks1 (T.TPutLocal rk (lrank wc target) qc))))) /\
+                        T.tm_key t = rk /\ T.tm_due t = None).
+  { unfold K.do_top. cbn [T.tstep].
+    pose proof (TP.put_local_q_timers (K.k_scfg (kc_of wc)) (K.ks_t ks1) rk (lrank wc target) qc (K.ks_now ks1)) as Tm.
+    pose proof (TP.put_local_q_store (K.k_scfg (kc_of wc)) (K.ks_t ks1) rk (lrank wc target) qc (K.ks_now ks1)) as [_ Ok].
+    destruct (T.put_local_q (K.k_scfg (kc_of wc)) (K.ks_t ks1) rk (lrank wc target) qc (K.ks_now ks1)) as [ts' b].
+    cbn [fst snd K.with_ts K.ks_t] in *. subst ks1. cbn [K.with_ts K.ks_t K.ks_now T.ts_store age] in Ok.
+    change (K.k_scfg (kc_of wc)) with (wc_scfg wc) in Ok.
+    unfold w_store, w_clock in Hok. rewrite Hok in Ok. subst b. rewrite Tm.
+    eexists. split; [apply in_or_app; right; left; reflexivity |]. split; reflexivity. }
+  destruct E as (t & Hin & Hk & Hdue).
+  destruct (settle_keeps_timer (kc_of wc) _ t Hi Hin) as (t' & Hin' & Hk'); [rewrite Hdue; exact I |].
+  exists t'. split; [exact Hin' | congruence].
+Qed.
+
+(* ---- a provided key always has a refresh future: the refresh will come ---- *)
+(* no refresh future is overdue: the armed ones lie in the future *)
+Definition Safe (now : N) (l : list T.timer) : Prop :=
+  Forall (fun t => match T.tm_due t with Some d => now < d | None => True end) l.
+(* every key of local_providers has a refresh future *)
+Definition PT (q : list (N * N)) (l : list T.timer) : Prop :=
+  forall rk qc, T.find_q rk q = Some qc -> exists t, In t l /\ T.tm_key t = rk.
+Definition PTS (st : K.kstate) : Prop :=
+  Safe (K.ks_now st) (T.ts_timers (K.ks_t st)) /\ PT (T.ts_quorum (K.ks_t st)) (T.ts_timers (K.ks_t st)).
+
+Lemma put_local_q_PTS : forall c ts k dist q now,
+  Safe now (T.ts_timers ts) -> PT (T.ts_quorum ts) (T.ts_timers ts) ->
+  Safe now (T.ts_timers (fst (T.put_local_q c ts k dist q now))) /\
+  PT (T.ts_quorum (fst (T.put_local_q c ts k dist q now))) (T.ts_timers (fst (T.put_local_q c ts k dist q now))).
+Proof.
+  intros c ts k dist q now HS HP. unfold T.put_local_q.
+  destruct (S.put_local_provider c (T.ts_store ts) k dist now) as [s1 ok]. destruct ok; cbn [fst T.ts_timers T.ts_quorum].
+  - split.
+    + apply Forall_app. split; [exact HS | constructor; [exact I | constructor]].
+    + intros rk qc. rewrite TP.find_q_set. destruct (N.eqb_spec k rk) as [-> | Hne].
+      * intros _. eexists. split; [apply in_or_app; right; left; reflexivity | reflexivity].
+      * intro H. destruct (HP _ _ H) as (t & Hin & Hk). exists t. split; [apply in_or_app; left; exact Hin | exact Hk].
+  - split; assumption.
+Qed.
+
+Lemma tstep_PTS : forall c i ts o now, o <> T.TPoll ->
+  Safe now (T.ts_timers ts) -> PT (T.ts_quorum ts) (T.ts_timers ts) ->
+  Safe now (T.ts_timers (fst (T.tstep c i ts o now))) /\
+  PT (T.ts_quorum (fst (T.tstep c i ts o now))) (T.ts_timers (fst (T.tstep c i ts o now))).
+Proof.
+  intros c i ts o now Ho HS HP.
+  destruct o as [o | k dist q | | e | e]; cbn [T.tstep]; try (split; assumption); try congruence.
+  - destruct o as [k | r | k | k pid dist naddr | k dist | k dist].
+    + destruct (S.step c (T.ts_store ts) (S.OGet k) now). split; assumption.
+    + destruct (S.step c (T.ts_store ts) (S.OPut r) now). split; assumption.
+    + destruct (S.step c (T.ts_store ts) (S.OGetProviders k) now). split; assumption.
+    + destruct (S.step c (T.ts_store ts) (S.OPutProvider k pid dist naddr) now). split; assumption.
+    + pose proof (put_local_q_PTS c ts k dist T.QUORUM_ONE now HS HP) as H.
+      destruct (T.put_local_q c ts k dist T.QUORUM_ONE now). exact H.
+    + destruct (S.step c (T.ts_store ts) (S.ORemoveLocal k dist) now). cbn [fst T.ts_timers T.ts_quorum].
+      split; [exact HS |]. intros rk qc. destruct (N.eq_dec rk k) as [-> | Hne].
+      * rewrite TP.find_q_del_same. discriminate.
+      * rewrite TP.find_q_del_other by exact Hne. apply HP.
+  - pose proof (put_local_q_PTS c ts k dist q now HS HP) as H.
+    destruct (T.put_local_q c ts k dist q now). exact H.
+Qed.
+
+Lemma do_top_PTS : forall c st o, o <> T.TPoll -> PTS st -> PTS (fst (K.do_top c st o)).
+Proof.
+  intros c st o Ho [HS HP]. unfold K.do_top, PTS.
+  pose proof (tstep_PTS (K.k_scfg c) (K.k_interval c) (K.ks_t st) o (K.ks_now st) Ho HS HP) as H.
+  destruct (T.tstep (K.k_scfg c) (K.k_interval c) (K.ks_t st) o (K.ks_now st)). exact H.
+Qed.
+
+Lemma settle_PTS : forall c st, 1 <= K.k_interval c -> PTS st -> PTS (K.settle c st).
+Proof.
+  intros c st Hi [HS HP]. split.
+  - pose proof (KP.settle_armed c st) as A. unfold KP.KArmed in A. unfold Safe.
+    eapply Forall_impl; [| exact A]. intros t (d & -> & Hd). exact Hd.
+  - intros rk qc Hq. rewrite KP.settle_quorum in Hq. destruct (HP _ _ Hq) as (t & Hin & Hk).
+    destruct (settle_keeps_timer c st t Hi Hin) as (t' & Hin' & Hk').
+    + unfold Safe in HS. rewrite Forall_forall in HS. apply HS. exact Hin.
+    + exists t'. split; [exact Hin' | congruence].
+Qed.
+
+Lemma kstep_PTS : forall c st e, 1 <= K.k_interval c ->
+  match e with K.KAge _ _ => False | _ => True end -> PTS st -> PTS (fst (K.kstep c st e)).
+Proof.
+  intros c st e Hi He H. unfold K.kstep. destruct (K.ks_dead st); [exact H |].
+  assert (SD : forall o, o <> T.TPoll -> PTS (K.settle c (fst (K.do_top c st o)))).
+  { intros o Ho. apply settle_PTS; [exact Hi | apply do_top_PTS; assumption]. }
+  assert (S0 : PTS (K.settle c st)) by (apply settle_PTS; assumption).
+  destruct e; try contradiction.
+  - destruct (pub =? K.PUB_INVALID); [exact S0 |]. destruct (K.k_auto c); cbn [fst]; [apply SD; discriminate | exact S0].
+  - destruct (K.decoded_provs (K.k_repl c) provs) as [| [[p d] na] [| x l]]; try exact S0.
+    destruct (p =? from); cbn [fst]; [apply SD; discriminate | exact S0].
+  - pose proof (SD (T.TOp (S.OGet key))) as D. destruct (K.do_top c st (T.TOp (S.OGet key))). apply D. discriminate.
+  - pose proof (SD (T.TOp (S.OGetProviders key))) as D. destruct (K.do_top c st (T.TOp (S.OGetProviders key))). apply D. discriminate.
+  - cbn [fst]. apply SD. discriminate.
+  - destruct update_local; cbn [fst]; [apply SD; discriminate | exact S0].
+  - cbn [fst]. apply SD. discriminate.
+  - cbn [fst]. apply SD. discriminate.
+  - pose proof (do_top_PTS c st (T.TOp (S.ORemoveLocal key dist))) as D.
+    destruct (K.do_top c st (T.TOp (S.ORemoveLocal key dist))) as [st1 r]. cbn [fst] in D.
+    assert (D1 : PTS st1) by (apply D; [discriminate | exact H]).
+    destruct r as [o | l | b]; cbn [fst]; try (apply settle_PTS; assumption).
+    destruct o as [| o | l | b]; cbn [fst]; try (apply settle_PTS; assumption).
+    destruct b; cbn [fst]; [apply settle_PTS; assumption | exact D1].
+  - pose proof (SD (T.TOp (S.OGet key))) as D. destruct (K.do_top c st (T.TOp (S.OGet key))). apply D. discriminate.
+  - cbn [fst]. apply SD. discriminate.
+Qed.
+
+Lemma take_due_spec : forall now rk l rest, take_due now rk l = Some rest ->
+  (forall t, In t rest -> In t l) /\ (forall t, In t l -> T.tm_key t <> rk -> In t rest).
+Proof.
+  intros now rk l. induction l as [| h t IH]; intros rest H; [discriminate |]. cbn [take_due] in H.
+  destruct ((T.tm_key h =? rk) && T.is_due now h) eqn:E.
+  - injection H as <-. split; [intros x Hx; right; exact Hx |].
+    intros x [-> | Hx] Hk; [| exact Hx]. apply andb_true_iff in E. destruct E as [E _]. apply N.eqb_eq in E. congruence.
+  - destruct (take_due now rk t) as [r' |]; [| discriminate]. cbn [option_map] in H. injection H as <-.
+    destruct (IH r' eq_refl) as [I1 I2]. split.
+    + intros x [-> | Hx]; [left; reflexivity | right; apply I1; exact Hx].
+    + intros x [-> | Hx] Hk; [left; reflexivity | right; apply I2; assumption].
+Qed.
+
+(* the store accepts the provider record of a refresh (it is refused only at the provider capacity of the
+   store, after the local provider record of the key has been lost) *)
+Definition refresh_accepted (wc : wcfg) (w : world) (u : uev) : Prop :=
+  match u with
+  | UFire _ rk wait t =>
+      T.find_q rk (w_quorum w) <> None ->
+      snd (S.put_local_provider (wc_scfg wc) (w_store w) rk (lrank wc t) (w_clock w + wait)) = true
+  | _ => True
   end.
 
-Lemma prov_side_get : forall w u rk,
-  aget rk (fst (prov_side w u)) = last_prov rk (aget rk (w_prov w)) [u].
+Lemma cstep_PTS : forall wc w u, 1 <= wc_interval wc ->
+  uvalid wc w u = true -> refresh_accepted wc w u -> PTS (w_ks w) -> PTS (w_ks (fst (fst (cstep wc w u)))).
 Proof.
-  intros w u rk. destruct u as [q c target | q qr rk0 given | rk0 | p a | rk0 | q rk0 target | id rq | e];
-    cbn [prov_side last_prov fst]; try reflexivity.
-  - destruct c; cbn [fst]; try reflexivity. destruct (N.eqb_spec rk0 rk) as [-> | Hne].
-    + apply aget_aset_same.
-    + apply aget_aset_other. congruence.
-  - destruct (N.eqb_spec rk0 rk) as [-> | Hne]; [apply aget_adel_same | apply aget_adel_other; congruence].
-  - destruct (nmem rk0 (w_timers w)); [destruct (aget rk0 (w_prov w)) |]; reflexivity.
+  intros wc w u Hi Hv Ha H. rewrite cstep_ks, elab_ks. unfold kside.
+  destruct (kev_of wc w u) as [ke |] eqn:Ek.
+  - apply kstep_PTS; [exact Hi | | exact H].
+    destruct u as [q c target | q qr k len pub exp upd given | k len pub exp | p a | k target | q k wait target | d | id rq | e];
+      cbn [kev_of] in Ek; try discriminate.
+    + destruct c; try discriminate; injection Ek as <-; exact I.
+    + injection Ek as <-; exact I.
+    + injection Ek as <-; exact I.
+    + injection Ek as <-; exact I.
+    + destruct (inbound_read (w_st w) id); [| discriminate]. destruct rq; try discriminate; injection Ek as <-; exact I.
+  - destruct u as [q c target | q qr k len pub exp upd given | k len pub exp | p a | k target | q k wait target | d | id rq | e];
+      cbn [fst]; try exact H.
+    + (* a refresh future is taken *)
+      unfold uvalid in Hv. apply andb_true_iff in Hv. destruct Hv as [Hdd Hv]. apply negb_true_iff in Hdd.
+      unfold fire1 in *. cbn [age K.ks_dead K.ks_now K.ks_t] in *. rewrite Hdd.
+      unfold w_clock, w_timers in Hv.
+      destruct (take_due (K.ks_now (w_ks w) + wait) k (T.ts_timers (K.ks_t (w_ks w)))) as [rest |] eqn:Et; [| discriminate].
+      destruct (take_due_spec _ _ _ _ Et) as [T1 T2]. destruct H as [HS HP].
+      rename Hv into Hnd.
+      set (ks1 := K.with_ts _ _).
+      assert (S1 : Safe (K.ks_now ks1) (T.ts_timers (K.ks_t ks1))).
+      { subst ks1. cbn [K.with_ts K.ks_now K.ks_t T.ts_timers age]. unfold Safe. apply Forall_forall. intros t Ht.
+        rewrite forallb_forall in Hnd. specialize (Hnd t Ht). unfold T.is_due in Hnd.
+        destruct (T.tm_due t) as [dd |]; [| exact I]. apply negb_true_iff in Hnd. apply N.leb_gt in Hnd. exact Hnd. }
+      assert (P1 : forall rk qc, rk <> k -> T.find_q rk (T.ts_quorum (K.ks_t ks1)) = Some qc ->
+                                 exists t, In t (T.ts_timers (K.ks_t ks1)) /\ T.tm_key t = rk).
+      { intros rk qc Hne Hq. subst ks1. cbn [K.with_ts K.ks_t T.ts_quorum T.ts_timers] in *.
+        destruct (HP _ _ Hq) as (t & Hin & Hk). exists t. split; [apply T2; [exact Hin | congruence] | exact Hk]. }
+      destruct (T.find_q k (T.ts_quorum (K.ks_t (w_ks w)))) as [qc |] eqn:Eq; cbn [fst].
+      * apply settle_PTS; [exact Hi |]. unfold K.do_top. cbn [T.tstep]. unfold T.put_local_q.
+        cbn [refresh_accepted] in Ha. unfold w_quorum in Ha. rewrite Eq in Ha. specialize (Ha ltac:(discriminate)).
+        change (S.put_local_provider (K.k_scfg (kc_of wc)) (T.ts_store (K.ks_t ks1)) k (lrank wc target) (K.ks_now ks1))
+          with (S.put_local_provider (wc_scfg wc) (w_store w) k (lrank wc target) (w_clock w + wait)).
+        destruct (S.put_local_provider (wc_scfg wc) (w_store w) k (lrank wc target) (w_clock w + wait)) as [s1 ok].
+        cbn [snd] in Ha. subst ok. unfold PTS. cbn [fst K.with_ts K.ks_t K.ks_now T.ts_timers T.ts_quorum]. split.
+        -- apply Forall_app. split; [exact S1 | constructor; [exact I | constructor]].
+        -- intros rk qc' Hq. rewrite TP.find_q_set in Hq. destruct (N.eqb_spec k rk) as [-> | Hne].
+           ++ eexists. split; [apply in_or_app; right; left; reflexivity | reflexivity].
+           ++ destruct (P1 rk qc' ltac:(congruence) Hq) as (t & Hin & Hk).
+              exists t. split; [apply in_or_app; left; exact Hin | exact Hk].
+      * apply settle_PTS; [exact Hi |]. split; [exact S1 |].
+        intros rk qc Hq. destruct (N.eq_dec rk k) as [-> | Hne].
+        -- subst ks1. cbn [K.with_ts K.ks_t T.ts_quorum] in Hq. congruence.
+        -- apply (P1 rk qc Hne Hq).
+    + (* explicit time passing stops before the next deadline *)
+      unfold uvalid in Hv. apply andb_true_iff in Hv. destruct Hv as [_ Hv]. destruct H as [HS HP].
+      split; [| exact HP]. cbn [age K.ks_now K.ks_t]. unfold Safe. apply Forall_forall. intros t Ht.
+      rewrite forallb_forall in Hv. specialize (Hv t Ht). unfold T.is_due, w_clock in Hv.
+      destruct (T.tm_due t) as [dd |]; [| exact I]. apply negb_true_iff in Hv. apply N.leb_gt in Hv. exact Hv.
 Qed.
 
-Lemma last_prov_cons : forall rk acc u t, last_prov rk acc (u :: t) = last_prov rk (last_prov rk acc [u]) t.
-Proof.
-  intros rk acc u t. destruct u as [q c target | | | | | | |]; try reflexivity. destruct c; reflexivity.
-Qed.
+Fixpoint valid_run (wc : wcfg) (w : world) (us : list uev) : Prop :=
+  match us with
+  | [] => True
+  | u :: t => uvalid wc w u = true /\ refresh_accepted wc w u /\ valid_run wc (fst (fst (cstep wc w u))) t
+  end.
 
-Lemma prov_track : forall wc us w rk,
-  aget rk (w_prov (fst (crun wc w us))) = last_prov rk (aget rk (w_prov w)) us.
-Proof.
-  intros wc us. induction us as [| u t IH]; intros w rk; [reflexivity |].
-  rewrite crun_cons. cbn [fst]. rewrite IH. destruct (cstep_prov wc w u) as [E _]. rewrite E, prov_side_get.
-  symmetry. apply last_prov_cons.
-Qed.
-
-Lemma rem1_other : forall x y l, x <> y -> In y l -> In y (rem1 x l).
-Proof.
-  intros x y l Hne. induction l as [| h t IH]; [intros [] |]. cbn [rem1]. intros [H | H].
-  - subst h. destruct (N.eqb_spec y x); [congruence | left; reflexivity].
-  - destruct (h =? x); [exact H | right; apply IH; exact H].
-Qed.
-
-(* a provided key always has a refresh timer armed: the refresh will come *)
-Definition PT (w : world) : Prop := forall rk qr, aget rk (w_prov w) = Some qr -> In rk (w_timers w).
-
-Lemma cstep_PT : forall wc w u, PT w -> PT (fst (fst (cstep wc w u))).
-Proof.
-  intros wc w u H rk qr. destruct (cstep_prov wc w u) as [E1 E2]. rewrite E1, E2.
-  destruct u as [q c target | q qr0 rk0 given | rk0 | p a | rk0 | q rk0 target | id rq | e];
-    cbn [prov_side fst snd]; try apply H.
-  - destruct c; cbn [fst snd]; try apply H. destruct (N.eqb_spec rk0 rk) as [-> | Hne].
-    + intros _. apply in_or_app. right. left. reflexivity.
-    + rewrite aget_aset_other by congruence. intro A. apply in_or_app. left. eapply H. exact A.
-  - destruct (N.eqb_spec rk0 rk) as [-> | Hne]; [rewrite aget_adel_same; discriminate |].
-    rewrite aget_adel_other by congruence. apply H.
-  - destruct (nmem rk0 (w_timers w)) eqn:Et; [| apply H].
-    destruct (aget rk0 (w_prov w)) eqn:Ep; cbn [fst snd]; intro A.
-    + destruct (N.eq_dec rk0 rk) as [-> | Hne]; apply in_or_app; [right; left; reflexivity |].
-      left. apply rem1_other; [exact Hne | eapply H; exact A].
-    + destruct (N.eq_dec rk0 rk) as [-> | Hne]; [congruence |]. apply rem1_other; [exact Hne | eapply H; exact A].
-Qed.
-
-Lemma crun_PT : forall wc us w, PT w -> PT (fst (crun wc w us)).
-Proof.
-  intros wc us. induction us as [| u t IH]; intros w H; [exact H |].
-  rewrite crun_cons. cbn [fst]. apply IH. apply cstep_PT. exact H.
-Qed.
-
-(* a timer that fires starts a refresh exactly when the key is still provided, with the quorum of the
-   last start_providing; then it is an ADD_PROVIDER operation like a user's, seeded from the table *)
-Lemma refresh_due : forall wc m L us q rk target,
+(* as long as a key is in local_providers a refresh future is pending for it, and none is overdue: in
+   every consistent schedule (`uvalid`: only completed futures are taken, explicit time passing stops before
+   the next deadline) in which the store accepted the refreshed provider records *)
+Lemma provided_has_timer : forall wc m L us rk qc,
+  1 <= wc_interval wc -> valid_run wc (w0 wc m L) us ->
   let w := fst (crun wc (w0 wc m L) us) in
-  In rk (w_timers w) ->
-  fst (fst (elab wc w (UFire q rk target))) =
-  match last_prov rk None us with
-  | Some qr => ECmd q (CRefresh qr) (dists_of wc target) (seeds_of wc (w_rt w) target)
-  | None => ENop
-  end /\
-  (last_prov rk None us <> None -> In rk (w_timers (fst (fst (cstep wc w (UFire q rk target)))))).
+  T.find_q rk (w_quorum w) = Some qc -> exists t, In t (w_timers w) /\ T.tm_key t = rk.
 Proof.
-  intros wc m L us q rk target w Hin.
-  assert (Et : nmem rk (w_timers w) = true) by (apply nmem_In; exact Hin).
-  pose proof (prov_track wc us (w0 wc m L) rk) as P. fold w in P. change (aget rk (w_prov (w0 wc m L))) with (@None quorum) in P.
-  split.
-  - cbn [elab]. unfold fire_due. rewrite Et, P. destruct (last_prov rk None us); reflexivity.
-  - intro Hp. destruct (cstep_prov wc w (UFire q rk target)) as [_ E2]. rewrite E2. cbn [prov_side]. rewrite Et, P.
-    destruct (last_prov rk None us); [| congruence]. cbn [snd]. apply in_or_app. right. left. reflexivity.
-Qed.
-
-Lemma provided_has_timer : forall wc m L us rk,
-  last_prov rk None us <> None -> In rk (w_timers (fst (crun wc (w0 wc m L) us))).
-Proof.
-  intros wc m L us rk H. pose proof (prov_track wc us (w0 wc m L) rk) as P.
-  change (aget rk (w_prov (w0 wc m L))) with (@None quorum) in P.
-  destruct (last_prov rk None us) as [qr |] eqn:E; [| congruence].
-  eapply (crun_PT wc us (w0 wc m L)); [intros ? ? A; discriminate A | exact P].
+  intros wc m L us rk qc Hi Hv w.
+  assert (G : forall us w, valid_run wc w us -> PTS (w_ks w) -> PTS (w_ks (fst (crun wc w us)))).
+  { intros us0. induction us0 as [| u t IH]; intros w1 Hv1 H; [exact H |].
+    destruct Hv1 as (V1 & V2 & V3). rewrite crun_cons. cbn [fst]. apply IH; [exact V3 |].
+    apply cstep_PTS; assumption. }
+  destruct (G us (w0 wc m L) Hv) as [_ HP]; [split; [constructor | intros ? ? A; discriminate A] |].
+  apply HP.
 Qed.
 
 (* ------------------------------------------------------------------ requests of remote peers *)
 
 (* the answer to an inbound FIND_NODE / GET_VALUE / GET_PROVIDERS: the closer peers are
    RoutingTable::closest of the current table for the key asked for — the very function that seeds the
-   node's own lookups, so never the local peer, at most k — and the record flag of GET_VALUE is the
-   store's answer *)
-Lemma inbound_reply : forall wc w id rq b ps,
-  keys_ok wc -> TInv wc (w_rt w) -> SI wc (w_store w) -> 1 <= wc_ttl wc ->
-  reply_of wc w (UInReq id rq) = Some (b, ps) ->
+   node's own lookups, so never the local peer, at most k; the record flag of GET_VALUE says that the store
+   holds a record under the key that has not expired; the providers of GET_PROVIDERS are the unexpired
+   provider records the store holds for the key (C17: V.C17.IngressProofs.served_providers_fresh) *)
+Lemma inbound_reply : forall wc w id rq b ps pv,
+  keys_ok wc -> TInv wc (w_rt w) -> K.ks_dead (w_ks w) = false ->
+  reply_of wc w (UInReq id rq) = Some (b, ps, pv) ->
   exists target,
-    (rq = IFindNode target \/ (exists rk, rq = IGetValue rk target) \/ rq = IGetProviders target) /\
+    (rq = IFindNode target \/ (exists rk, rq = IGetValue rk target) \/ (exists rk, rq = IGetProviders rk target)) /\
     ps = seeds_of wc (w_rt w) target /\ ~ In (g_local (wc_g wc)) ps /\
     (length ps <= N.to_nat (g_k (wc_g wc)))%nat /\
-    (b = true <-> exists rk, rq = IGetValue rk target /\ stored (w_store w) rk).
+    (b = true <-> exists rk, rq = IGetValue rk target /\ live_rec (w_store w) (w_clock w) rk) /\
+    (forall rk, rq = IGetProviders rk target ->
+       pv = map (fun p => (peer_of_pid wc (S.p_id p), K.serve_addrs (kc_of wc) p)) (known_provs (w_ks w) rk) /\
+       Forall (fun p => S.prov_expired p (w_clock w) = false) (known_provs (w_ks w) rk)) /\
+    ((forall rk, rq <> IGetProviders rk target) -> pv = []).
 Proof.
-  intros wc w id rq b ps Hk HI HS Ht H. cbn [reply_of] in H.
-  destruct (inbound_read (w_st w) id); [| discriminate].
+  intros wc w id rq b ps pv Hk HI Hd H. cbn [reply_of] in H.
+  destruct (inbound_read (w_st w) id) eqn:Hr; [| discriminate].
   assert (Len : forall target, (length (seeds_of wc (w_rt w) target) <= N.to_nat (g_k (wc_g wc)))%nat).
   { intro target. unfold seeds_of, R.closest. rewrite map_length. apply firstn_le_length. }
-  destruct rq as [target | rk | rk target | target | v]; try discriminate H; inversion H; subst; exists target.
+  destruct rq as [target | rk len pub ttl | rk target | rk target | rk provs target]; try discriminate H;
+    injection H as <- <- <-; exists target.
   - split; [left; reflexivity |]. split; [reflexivity |]. split; [apply seeds_not_local; assumption |].
-    split; [apply Len |]. split; [discriminate | intros (rk & E & _); discriminate E].
+    split; [apply Len |]. split; [split; [discriminate | intros (rk & E & _); discriminate E] |].
+    split; [intros rk E; discriminate E | reflexivity].
   - split; [right; left; eauto |]. split; [reflexivity |]. split; [apply seeds_not_local; assumption |].
-    split; [apply Len |]. rewrite (get_same wc _ rk HS Ht). cbn [snd]. unfold stored. split.
-    + intro E. exists rk. split; [reflexivity |]. destruct (S.find_rec rk (S.recs (w_store w))); [discriminate | discriminate E].
-    + intros (rk' & E & St). inversion E. subst rk'. destruct (S.find_rec rk (S.recs (w_store w))); [reflexivity | congruence].
-  - split; [right; right; reflexivity |]. split; [reflexivity |]. split; [apply seeds_not_local; assumption |].
-    split; [apply Len |]. split; [discriminate | intros (rk & E & _); discriminate E].
+    split; [apply Len |]. split.
+    + unfold kside. cbn [kev_of]. rewrite Hr.
+      destruct (get_hit (kc_of wc) (w_ks w) rk Hd) as [_ Hh]. rewrite Hh. split.
+      * intro L. exists rk. split; [reflexivity | exact L].
+      * intros (rk' & E & L). injection E as <-. exact L.
+    + split; [intros rk' E; discriminate E | reflexivity].
+  - split; [right; right; eauto |]. split; [reflexivity |]. split; [apply seeds_not_local; assumption |].
+    split; [apply Len |]. split; [split; [discriminate | intros (rk' & E & _); discriminate E] |].
+    split; [| intro Hn; exfalso; apply (Hn rk); reflexivity].
+    intros rk' E. injection E as <-. unfold kside. cbn [kev_of]. rewrite Hr.
+    destruct (snd (K.kstep (kc_of wc) (w_ks w) (K.KGetProviders (pid_of wc (sender (w_st w) id)) rk))) eqn:Es;
+      try (exfalso; revert Es; unfold K.kstep; rewrite Hd, KP.do_top_get_providers; discriminate).
+    destruct (KP.served_providers_fresh (kc_of wc) (w_ks w) _ rk l Hd Es) as (pl & E1 & E2 & E3 & _).
+    unfold known_provs. change (T.ts_store (K.ks_t (w_ks w))) with (KP.kstore (w_ks w)). rewrite <- E1. split; [| exact E3].
+    subst l. rewrite map_map. reflexivity.
 Qed.
 
-(* a record this node stored is served to every remote GET_VALUE that comes later *)
-Lemma stored_after_put : forall wc m L us1 u us2 rk,
-  1 <= wc_ttl wc -> REC_LEN < S.max_size (wc_scfg wc) ->
-  N.of_nat (length (us1 ++ u :: us2)) <= S.max_records (wc_scfg wc) ->
-  stores wc (fst (crun wc (w0 wc m L) us1)) u rk ->
-  let w := fst (crun wc (w0 wc m L) (us1 ++ u :: us2)) in
-  SI wc (w_store w) /\ stored (w_store w) rk.
+(* a record in the store is served to every remote GET_VALUE that comes before it expires or is written
+   again *)
+Lemma serve_after_put : forall wc w us rk r id target,
+  S.find_rec rk (S.recs (w_store w)) = Some r -> no_write rk us ->
+  let w' := fst (crun wc w us) in
+  S.rec_expired r (w_clock w') = false -> K.ks_dead (w_ks w') = false ->
+  inbound_read (w_st w') id = true ->
+  reply_of wc w' (UInReq id (IGetValue rk target)) = Some (true, seeds_of wc (w_rt w') target, []).
 Proof.
-  intros wc m L us1 u us2 rk Ht Hsz Hn Hu w.
-  assert (S0 : SI wc (w_store (w0 wc m L))) by constructor.
-  destruct (crun_store wc us1 (w0 wc m L) rk S0 Ht) as (S1 & _ & L1).
-  set (w1 := fst (crun wc (w0 wc m L) us1)) in *.
-  assert (St : stored (w_store (fst (fst (cstep wc w1 u)))) rk).
-  { rewrite cstep_store.
-    assert (E : snd (elab wc w1 u) = S.put (wc_scfg wc) (w_store w1) (local_record wc rk)) by (apply stores_put; exact Hu).
-    rewrite E. change rk with (S.r_key (local_record wc rk)) at 2. apply put_stored; [exact Hsz |].
-    rewrite app_length in Hn. cbn [length] in *. cbn in L1. lia. }
-  assert (Ew : w = fst (crun wc (fst (fst (cstep wc w1 u))) us2)).
-  { subst w w1. rewrite crun_app, crun_cons. reflexivity. }
-  destruct (crun_store wc us2 (fst (fst (cstep wc w1 u))) rk (cstep_SI wc w1 u S1 Ht) Ht) as (S2 & K2 & _).
-  rewrite <- Ew in S2, K2. split; [exact S2 | apply K2; exact St].
-Qed.
-
-Lemma serve_after_put : forall wc m L us1 u us2 rk id target,
-  1 <= wc_ttl wc -> REC_LEN < S.max_size (wc_scfg wc) ->
-  N.of_nat (length (us1 ++ u :: us2)) <= S.max_records (wc_scfg wc) ->
-  stores wc (fst (crun wc (w0 wc m L) us1)) u rk ->
-  let w := fst (crun wc (w0 wc m L) (us1 ++ u :: us2)) in
-  inbound_read (w_st w) id = true ->
-  reply_of wc w (UInReq id (IGetValue rk target)) = Some (true, seeds_of wc (w_rt w) target).
-Proof.
-  intros wc m L us1 u us2 rk id target Ht Hsz Hn Hu w Hr.
-  destruct (stored_after_put wc m L us1 u us2 rk Ht Hsz Hn Hu) as [HS St]. fold w in HS, St.
-  cbn [reply_of]. rewrite Hr, (get_same wc _ rk HS Ht). cbn [snd]. unfold stored in St.
-  destruct (S.find_rec rk (S.recs (w_store w))); [reflexivity | congruence].
+  intros wc w us rk r id target Hf Hn w' He Hd Hr.
+  pose proof (crun_keeps wc us w rk r Hn Hf He) as Hf'. fold w' in Hf'.
+  cbn [reply_of]. rewrite Hr. unfold kside. cbn [kev_of]. rewrite Hr.
+  destruct (get_hit (kc_of wc) (w_ks w') rk Hd) as [_ Hh].
+  destruct (Hh (pid_of wc (sender (w_st w') id))) as [_ Hh2]. rewrite Hh2; [reflexivity |].
+  exists r. split; [exact Hf' | exact He].
 Qed.
 
 (* ------------------------------------------------------------------ inbound traffic and the user's operations *)
@@ -1319,7 +1581,7 @@ Qed.
 (* a small world for the non-vacuity example of Properties.v *)
 Definition ex_wc : wcfg :=
   mkWC (mkG 20 3 99 10) [(99, [false; false]); (0, [true; false]); (1, [true; true])] [0; 1] 20
-       (V.C17.Model.mkCfg 8 10 8 8 8 100) 50 true true.
+       (V.C17.Model.mkCfg 8 10 8 8 8 100) 50 true true 30 0.
 Lemma ex_wc_ok : keys_ok ex_wc.
 Proof.
   constructor.
